@@ -5,642 +5,666 @@ use generic_array::functional::*;
 use generic_array::typenum::*;
 use core::borrow::{Borrow, BorrowMut};
 type GA<T, N> = GenericArray<T, N>;
-mod q0 { use super::*; fn p(a: GA<u8, U0>, b: GA<u8, U0>) -> core::cmp::Ordering { core::cmp::Ord::cmp(&a, &b) } }
-mod q1 { use super::*; fn p(a: &GA<GA<u8, U0>, U0>) { let _f: &GA<u8, U1> = a.flatten(); } }
-mod q2 { use super::*; fn p(a: GA<u8, U0>, b: GA<u8, U1>) -> core::cmp::Ordering { core::cmp::Ord::cmp(&a, &b) } }
-mod q3 { use super::*; fn p(a: GA<GA<u8, U0>, U1>) { let _f: GA<u8, U1> = a.flatten(); } }
-mod q4 { use super::*; fn p(a: GA<u8, U0>, b: GA<u8, U2>) -> bool { a < b } }
-mod q5 { use super::*; fn p(a: GA<GA<u8, U0>, U2>) { let _f: GA<u8, U0> = a.flatten(); } }
-mod q6 { use super::*; fn p(a: GA<u8, U0>, b: GA<u8, U3>) { let _ = a.zip(b, |x, y| x.wrapping_add(y)); } }
-mod q7 { use super::*; fn p(a: GA<u8, U0>, b: GA<u8, U3>) { let _c: GA<u8, U0> = a.concat(b); } }
-mod q8 { use super::*; fn p(a: GA<GA<u8, U0>, U3>) { let _f: GA<u8, U1> = a.flatten(); } }
-mod q9 { use super::*; fn p(a: GA<u8, U0>, b: &mut GA<u8, U4>) { let _ = a.zip(b, |x, y| x.wrapping_add(*y)); } }
-mod q10 { use super::*; fn p(a: GA<u8, U0>, b: GA<u8, U4>) { let _c: GA<u8, U4> = a.concat(b); } }
-mod q11 { use super::*; fn p(a: GA<GA<u8, U0>, U4>) { let _f: GA<u8, U4> = a.flatten(); } }
-mod q12 { use super::*; fn p(a: GA<u8, U0>, b: GA<u8, U5>) -> bool { a < b } }
-mod q13 { use super::*; fn p(a: GA<GA<u8, U0>, U5>) { let _f: GA<u8, U0> = a.flatten(); } }
-mod q14 { use super::*; fn p(a: GA<u8, U0>, b: GA<u8, U6>) { let _ = a.zip(b, |x, y| x.wrapping_add(y)); } }
-mod q15 { use super::*; fn p(a: GA<u8, U0>, b: GA<u8, U6>) { let _c: GA<u8, U0> = a.concat(b); } }
-mod q16 { use super::*; fn p(a: GA<GA<u8, U0>, U6>) { let _f: GA<u8, U1> = a.flatten(); } }
-mod q17 { use super::*; fn p(a: GA<u8, U0>) { let (_h, _t): (GA<u8, U0>, GA<u8, U1>) = Split::<u8, U0>::split(a); } }
-mod q18 { use super::*; fn p(a: GA<u8, U0>) { let (_h, _t): (GA<u8, U2>, GA<u8, U0>) = Split::<u8, U2>::split(a); } }
-mod q19 { use super::*; fn p(a: GA<u8, U0>) { let (_h, _t): (GA<u8, U3>, GA<u8, U1>) = Split::<u8, U3>::split(a); } }
-mod q20 { use super::*; fn p(a: GA<u8, U0>) { let (_h, _t): (GA<u8, U5>, GA<u8, U0>) = Split::<u8, U5>::split(a); } }
-mod q21 { use super::*; fn p(a: GA<u8, U0>) { let (_h, _t): (GA<u8, U6>, GA<u8, U1>) = Split::<u8, U6>::split(a); } }
-mod q22 { use super::*; fn p(a: GA<u8, U0>) { let _c: GA<u8, U0> = a.append(1u8); } }
-mod q23 { use super::*; fn p(a: GA<u8, U0>) { let _m: GA<u16, U0> = a.map(|x| x as u16); } }
-mod q24 { use super::*; fn p() { let _a: GA<u8, U0> = arr![]; } }
-mod q25 { use super::*; fn p(a: &GA<u8, U0>) { let _r: &[u8; 0] = a.as_ref(); } }
-mod q26 { use super::*; fn p(x: &[GA<u8, U0>]) { let _g: &[[u8; 0]] = GA::into_chunks(x); } }
-mod q27 { use super::*; fn p(a: GA<u8, U0>) { let (_c, _x): (GA<u8, U1>, u8) = a.pop_back(); } }
-mod q28 { use super::*; fn p() { let _g: GA<u8, U1> = GA::<u8, U0>::generate(|i| i as u8); } }
-mod q29 { use super::*; fn p(a: GA<u8, U0>) { let _x = a.into_array::<1>(); } }
-mod q30 { use super::*; fn p(x: &[u8; 1]) { let _g: &GA<u8, U0> = x.into(); } }
-mod q31 { use super::*; fn p(x: &mut [GA<u8, U0>]) { let _g: &mut [[u8; 1]] = GA::into_chunks_mut(x); } }
-mod q32 { use super::*; fn p(a: GA<u8, U0>) { let (_x, _c): (u8, GA<u8, U2>) = a.remove(0); } }
-mod q33 { use super::*; fn p() { let _a: GA<u8, U2> = arr![7u8; U0]; } }
-mod q34 { use super::*; fn p(a: GA<u8, U0>) { let _x: [u8; 2] = a.into(); } }
-mod q35 { use super::*; fn p(x: &[[u8; 2]]) { let _g: &[GA<u8, U0>] = GA::from_chunks(x); } }
-mod q36 { use super::*; fn p(a: GA<u8, U0>) { let _c: GA<u8, U3> = a.append(1u8); } }
-mod q37 { use super::*; fn p(a: GA<u8, U0>) { let _m: GA<u16, U3> = a.map(|x| x as u16); } }
-mod q38 { use super::*; fn p() { let _a: GA<u8, U3> = arr![]; } }
-mod q39 { use super::*; fn p(a: &GA<u8, U0>) { let _r: &[u8; 3] = a.as_ref(); } }
-mod q40 { use super::*; fn p(x: &[GA<u8, U0>]) { let _g: &[[u8; 3]] = GA::into_chunks(x); } }
-mod q41 { use super::*; fn p(a: GA<u8, U0>) { let (_c, _x): (GA<u8, U4>, u8) = a.pop_back(); } }
-mod q42 { use super::*; fn p() { let _g: GA<u8, U4> = GA::<u8, U0>::generate(|i| i as u8); } }
-mod q43 { use super::*; fn p(a: GA<u8, U0>) { let _x = a.into_array::<4>(); } }
-mod q44 { use super::*; fn p(x: &[u8; 4]) { let _g: &GA<u8, U0> = x.into(); } }
-mod q45 { use super::*; fn p(x: &mut [GA<u8, U0>]) { let _g: &mut [[u8; 4]] = GA::into_chunks_mut(x); } }
-mod q46 { use super::*; fn p(a: GA<u8, U0>) { let (_x, _c): (u8, GA<u8, U5>) = a.remove(0); } }
-mod q47 { use super::*; fn p() { let _a: GA<u8, U5> = arr![7u8; U0]; } }
-mod q48 { use super::*; fn p(a: GA<u8, U0>) { let _x: [u8; 5] = a.into(); } }
-mod q49 { use super::*; fn p(x: &[[u8; 5]]) { let _g: &[GA<u8, U0>] = GA::from_chunks(x); } }
-mod q50 { use super::*; fn p(a: GA<u8, U0>) { let _c: GA<u8, U6> = a.append(1u8); } }
-mod q51 { use super::*; fn p(a: GA<u8, U0>) { let _m: GA<u16, U6> = a.map(|x| x as u16); } }
-mod q52 { use super::*; fn p() { let _a: GA<u8, U6> = arr![]; } }
-mod q53 { use super::*; fn p(a: &GA<u8, U0>) { let _r: &[u8; 6] = a.as_ref(); } }
-mod q54 { use super::*; fn p(x: &[GA<u8, U0>]) { let _g: &[[u8; 6]] = GA::into_chunks(x); } }
-mod q55 { use super::*; fn p(a: GA<u8, U0>) { let (_c, _x): (GA<u8, U7>, u8) = a.pop_back(); } }
-mod q56 { use super::*; fn p() { let _g: GA<u8, U7> = GA::<u8, U0>::generate(|i| i as u8); } }
-mod q57 { use super::*; fn p(a: GA<u8, U0>) { let _x = a.into_array::<7>(); } }
-mod q58 { use super::*; fn p(x: &[u8; 7]) { let _g: &GA<u8, U0> = x.into(); } }
-mod q59 { use super::*; fn p(x: &mut [GA<u8, U0>]) { let _g: &mut [[u8; 7]] = GA::into_chunks_mut(x); } }
-mod q60 { use super::*; fn p(a: GA<u8, U0>) { let (_x, _c): (u8, GA<u8, U8>) = a.remove(0); } }
-mod q61 { use super::*; fn p() { let _a: GA<u8, U8> = arr![7u8; U0]; } }
-mod q62 { use super::*; fn p(a: GA<u8, U0>) { let _x: [u8; 8] = a.into(); } }
-mod q63 { use super::*; fn p(x: &[[u8; 8]]) { let _g: &[GA<u8, U0>] = GA::from_chunks(x); } }
-mod q64 { use super::*; fn p(a: GA<u8, U0>) { let _u: GA<GA<u8, U0>, U0> = a.unflatten(); } }
-mod q65 { use super::*; fn p(a: GA<u8, U0>) { let _u: GA<GA<u8, U0>, U6> = a.unflatten(); } }
-mod q66 { use super::*; fn p(a: GA<u8, U0>) { let _u: GA<GA<u8, U1>, U4> = a.unflatten(); } }
-mod q67 { use super::*; fn p(a: GA<u8, U0>) { let _u: GA<GA<u8, U2>, U2> = a.unflatten(); } }
-mod q68 { use super::*; fn p(a: GA<u8, U0>) { let _u: GA<GA<u8, U3>, U0> = a.unflatten(); } }
-mod q69 { use super::*; fn p(a: GA<u8, U0>) { let _u: GA<GA<u8, U3>, U6> = a.unflatten(); } }
-mod q70 { use super::*; fn p(a: GA<u8, U1>, b: GA<u8, U0>) -> bool { a < b } }
-mod q71 { use super::*; fn p(a: &GA<GA<u8, U1>, U0>) { let _f: &GA<u8, U0> = a.flatten(); } }
-mod q72 { use super::*; fn p(a: GA<u8, U1>, b: GA<u8, U1>) -> bool { a == b } }
-mod q73 { use super::*; fn p(a: GA<u8, U1>, b: GA<u8, U1>) { let _c: GA<u8, U3> = a.concat(b); } }
-mod q74 { use super::*; fn p(a: &GA<GA<u8, U1>, U1>) { let _f: &GA<u8, U2> = a.flatten(); } }
-mod q75 { use super::*; fn p(a: GA<u8, U1>, b: GA<u8, U2>) -> core::cmp::Ordering { core::cmp::Ord::cmp(&a, &b) } }
-mod q76 { use super::*; fn p(a: &GA<GA<u8, U1>, U2>) { let _f: &GA<u8, U1> = a.flatten(); } }
-mod q77 { use super::*; fn p(a: &GA<u8, U1>, b: &GA<u8, U3>) { let _ = a.zip(b, |x, y| x.wrapping_add(*y)); } }
-mod q78 { use super::*; fn p(a: GA<u8, U1>, b: GA<u8, U3>) { let _c: GA<u8, U3> = a.concat(b); } }
-mod q79 { use super::*; fn p(a: &GA<GA<u8, U1>, U3>) { let _f: &GA<u8, U3> = a.flatten(); } }
-mod q80 { use super::*; fn p(a: GA<u8, U1>, b: GA<u8, U4>) -> bool { a == b } }
-mod q81 { use super::*; fn p(a: GA<u8, U1>, b: GA<u8, U4>) { let _c: GA<u8, U6> = a.concat(b); } }
-mod q82 { use super::*; fn p(a: &GA<GA<u8, U1>, U4>) { let _f: &GA<u8, U5> = a.flatten(); } }
-mod q83 { use super::*; fn p(a: GA<u8, U1>, b: GA<u8, U5>) -> core::cmp::Ordering { core::cmp::Ord::cmp(&a, &b) } }
-mod q84 { use super::*; fn p(a: &GA<GA<u8, U1>, U5>) { let _f: &GA<u8, U4> = a.flatten(); } }
-mod q85 { use super::*; fn p(a: &GA<u8, U1>, b: &GA<u8, U6>) { let _ = a.zip(b, |x, y| x.wrapping_add(*y)); } }
-mod q86 { use super::*; fn p(a: GA<u8, U1>, b: GA<u8, U6>) { let _c: GA<u8, U6> = a.concat(b); } }
-mod q87 { use super::*; fn p(a: &GA<GA<u8, U1>, U6>) { let _f: &GA<u8, U6> = a.flatten(); } }
-mod q88 { use super::*; fn p(a: &GA<u8, U1>) { let (_h, _t): (&GA<u8, U0>, &GA<u8, U1>) = Split::<u8, U0>::split(a); } }
-mod q89 { use super::*; fn p(a: &GA<u8, U1>) { let (_h, _t): (&GA<u8, U1>, &GA<u8, U1>) = Split::<u8, U1>::split(a); } }
-mod q90 { use super::*; fn p(a: &GA<u8, U1>) { let (_h, _t): (&GA<u8, U3>, &GA<u8, U0>) = Split::<u8, U3>::split(a); } }
-mod q91 { use super::*; fn p(a: &GA<u8, U1>) { let (_h, _t): (&GA<u8, U4>, &GA<u8, U1>) = Split::<u8, U4>::split(a); } }
-mod q92 { use super::*; fn p(a: &GA<u8, U1>) { let (_h, _t): (&GA<u8, U6>, &GA<u8, U0>) = Split::<u8, U6>::split(a); } }
-mod q93 { use super::*; fn p(a: &GA<u8, U1>) { let (_h, _t): (&GA<u8, U7>, &GA<u8, U1>) = Split::<u8, U7>::split(a); } }
-mod q94 { use super::*; fn p(a: GA<u8, U1>) { let (_x, _c): (u8, GA<u8, U0>) = a.swap_remove(0); } }
-mod q95 { use super::*; fn p() { let _a: GA<u8, U0> = arr![7u8; 1]; } }
-mod q96 { use super::*; fn p() { let _g: GA<u8, U1> = [0u8; 0].into(); } }
-mod q97 { use super::*; fn p(x: &mut [[u8; 0]]) { let _g: &mut [GA<u8, U1>] = GA::from_chunks_mut(x); } }
-mod q98 { use super::*; fn p(a: GA<u8, U1>) { let _c: GA<u8, U1> = a.prepend(1u8); } }
-mod q99 { use super::*; fn p(a: &GA<u8, U1>) { let _m: GA<u16, U1> = a.map(|x| *x as u16); } }
-mod q100 { use super::*; fn p(a: GA<u8, U1>) { let _x: [u8; 1] = a.into_array(); } }
-mod q101 { use super::*; fn p(a: &mut GA<u8, U1>) { let _r: &mut [u8; 1] = a.as_mut(); } }
-mod q102 { use super::*; fn p(x: &[GA<u8, U1>]) { let _g = GA::<u8, U1>::into_chunks::<1>(x); } }
-mod q103 { use super::*; fn p(a: GA<u8, U1>) { let (_x, _c): (u8, GA<u8, U2>) = a.pop_front(); } }
-mod q104 { use super::*; fn p(a: GA<u8, U1>, b: GA<u8, U1>) { let _z: GA<u16, U2> = a.zip(b, |x, y| x as u16 + y as u16); } }
-mod q105 { use super::*; fn p() { let _g = GA::<u8, U1>::from_array([0u8; 2]); } }
-mod q106 { use super::*; fn p(x: &mut [u8; 2]) { let _g: &mut GA<u8, U1> = x.into(); } }
-mod q107 { use super::*; fn p(x: &mut [GA<u8, U1>]) { let _g = GA::<u8, U1>::into_chunks_mut::<2>(x); } }
-mod q108 { use super::*; fn p(a: GA<u8, U1>) { let (_x, _c): (u8, GA<u8, U3>) = a.swap_remove(0); } }
-mod q109 { use super::*; fn p() { let _a: GA<u8, U3> = arr![7u8; 1]; } }
-mod q110 { use super::*; fn p() { let _g: GA<u8, U1> = [0u8; 3].into(); } }
-mod q111 { use super::*; fn p(x: &mut [[u8; 3]]) { let _g: &mut [GA<u8, U1>] = GA::from_chunks_mut(x); } }
-mod q112 { use super::*; fn p(a: GA<u8, U1>) { let _c: GA<u8, U4> = a.prepend(1u8); } }
-mod q113 { use super::*; fn p(a: &GA<u8, U1>) { let _m: GA<u16, U4> = a.map(|x| *x as u16); } }
-mod q114 { use super::*; fn p(a: GA<u8, U1>) { let _x: [u8; 4] = a.into_array(); } }
-mod q115 { use super::*; fn p(a: &mut GA<u8, U1>) { let _r: &mut [u8; 4] = a.as_mut(); } }
-mod q116 { use super::*; fn p(x: &[GA<u8, U1>]) { let _g = GA::<u8, U1>::into_chunks::<4>(x); } }
-mod q117 { use super::*; fn p(a: GA<u8, U1>) { let (_x, _c): (u8, GA<u8, U5>) = a.pop_front(); } }
-mod q118 { use super::*; fn p(a: GA<u8, U1>, b: GA<u8, U1>) { let _z: GA<u16, U5> = a.zip(b, |x, y| x as u16 + y as u16); } }
-mod q119 { use super::*; fn p() { let _g = GA::<u8, U1>::from_array([0u8; 5]); } }
-mod q120 { use super::*; fn p(x: &mut [u8; 5]) { let _g: &mut GA<u8, U1> = x.into(); } }
-mod q121 { use super::*; fn p(x: &mut [GA<u8, U1>]) { let _g = GA::<u8, U1>::into_chunks_mut::<5>(x); } }
-mod q122 { use super::*; fn p(a: GA<u8, U1>) { let (_x, _c): (u8, GA<u8, U6>) = a.swap_remove(0); } }
-mod q123 { use super::*; fn p() { let _a: GA<u8, U6> = arr![7u8; 1]; } }
-mod q124 { use super::*; fn p() { let _g: GA<u8, U1> = [0u8; 6].into(); } }
-mod q125 { use super::*; fn p(x: &mut [[u8; 6]]) { let _g: &mut [GA<u8, U1>] = GA::from_chunks_mut(x); } }
-mod q126 { use super::*; fn p(a: GA<u8, U1>) { let _c: GA<u8, U7> = a.prepend(1u8); } }
-mod q127 { use super::*; fn p(a: &GA<u8, U1>) { let _m: GA<u16, U7> = a.map(|x| *x as u16); } }
-mod q128 { use super::*; fn p(a: GA<u8, U1>) { let _x: [u8; 7] = a.into_array(); } }
-mod q129 { use super::*; fn p(a: &mut GA<u8, U1>) { let _r: &mut [u8; 7] = a.as_mut(); } }
-mod q130 { use super::*; fn p(x: &[GA<u8, U1>]) { let _g = GA::<u8, U1>::into_chunks::<7>(x); } }
-mod q131 { use super::*; fn p(a: GA<u8, U1>) { let (_x, _c): (u8, GA<u8, U8>) = a.pop_front(); } }
-mod q132 { use super::*; fn p(a: GA<u8, U1>, b: GA<u8, U1>) { let _z: GA<u16, U8> = a.zip(b, |x, y| x as u16 + y as u16); } }
-mod q133 { use super::*; fn p() { let _g = GA::<u8, U1>::from_array([0u8; 8]); } }
-mod q134 { use super::*; fn p(x: &mut [u8; 8]) { let _g: &mut GA<u8, U1> = x.into(); } }
-mod q135 { use super::*; fn p(x: &mut [GA<u8, U1>]) { let _g = GA::<u8, U1>::into_chunks_mut::<8>(x); } }
-mod q136 { use super::*; fn p(a: GA<u8, U1>) { let _u: GA<GA<u8, U0>, U5> = a.unflatten(); } }
-mod q137 { use super::*; fn p(a: GA<u8, U1>) { let _u: GA<GA<u8, U1>, U3> = a.unflatten(); } }
-mod q138 { use super::*; fn p(a: GA<u8, U1>) { let _u: GA<GA<u8, U2>, U1> = a.unflatten(); } }
-mod q139 { use super::*; fn p(a: GA<u8, U1>) { let _u: GA<GA<u8, U2>, U7> = a.unflatten(); } }
-mod q140 { use super::*; fn p(a: GA<u8, U1>) { let _u: GA<GA<u8, U3>, U5> = a.unflatten(); } }
-mod q141 { use super::*; fn p(a: GA<u8, U2>, b: GA<u8, U0>) -> bool { a == b } }
-mod q142 { use super::*; fn p(a: GA<u8, U2>, b: GA<u8, U0>) { let _c: GA<u8, U3> = a.concat(b); } }
-mod q143 { use super::*; fn p(a: &GA<GA<u8, U2>, U0>) { let _f: &GA<u8, U2> = a.flatten(); } }
-mod q144 { use super::*; fn p(a: GA<u8, U2>, b: GA<u8, U1>) -> core::cmp::Ordering { core::cmp::Ord::cmp(&a, &b) } }
-mod q145 { use super::*; fn p(a: &GA<GA<u8, U2>, U1>) { let _f: &GA<u8, U1> = a.flatten(); } }
-mod q146 { use super::*; fn p(a: &GA<u8, U2>, b: &GA<u8, U2>) { let _ = a.zip(b, |x, y| x.wrapping_add(*y)); } }
-mod q147 { use super::*; fn p(a: GA<u8, U2>, b: GA<u8, U2>) { let _c: GA<u8, U3> = a.concat(b); } }
-mod q148 { use super::*; fn p(a: &GA<GA<u8, U2>, U2>) { let _f: &GA<u8, U4> = a.flatten(); } }
-mod q149 { use super::*; fn p(a: GA<u8, U2>, b: GA<u8, U3>) -> bool { a == b } }
-mod q150 { use super::*; fn p(a: GA<u8, U2>, b: GA<u8, U3>) { let _c: GA<u8, U6> = a.concat(b); } }
-mod q151 { use super::*; fn p(a: &GA<GA<u8, U2>, U3>) { let _f: &GA<u8, U7> = a.flatten(); } }
-mod q152 { use super::*; fn p(a: GA<u8, U2>, b: GA<u8, U4>) -> core::cmp::Ordering { core::cmp::Ord::cmp(&a, &b) } }
-mod q153 { use super::*; fn p(a: &GA<GA<u8, U2>, U4>) { let _f: &GA<u8, U6> = a.flatten(); } }
-mod q154 { use super::*; fn p(a: &GA<GA<u8, U2>, U4>) { let _f: &GA<u8, U9> = a.flatten(); } }
-mod q155 { use super::*; fn p(a: GA<u8, U2>, b: GA<u8, U5>) -> core::cmp::Ordering { core::cmp::Ord::cmp(&a, &b) } }
-mod q156 { use super::*; fn p(a: &GA<GA<u8, U2>, U5>) { let _f: &GA<u8, U7> = a.flatten(); } }
-mod q157 { use super::*; fn p(a: &GA<GA<u8, U2>, U5>) { let _f: &GA<u8, U11> = a.flatten(); } }
-mod q158 { use super::*; fn p(a: GA<u8, U2>, b: GA<u8, U6>) -> core::cmp::Ordering { core::cmp::Ord::cmp(&a, &b) } }
-mod q159 { use super::*; fn p(a: &GA<GA<u8, U2>, U6>) { let _f: &GA<u8, U8> = a.flatten(); } }
-mod q160 { use super::*; fn p(a: &GA<GA<u8, U2>, U6>) { let _f: &GA<u8, U13> = a.flatten(); } }
-mod q161 { use super::*; fn p(a: &GA<u8, U2>) { let (_h, _t): (&GA<u8, U0>, &GA<u8, U3>) = Split::<u8, U0>::split(a); } }
-mod q162 { use super::*; fn p(a: &GA<u8, U2>) { let (_h, _t): (&GA<u8, U1>, &GA<u8, U2>) = Split::<u8, U1>::split(a); } }
-mod q163 { use super::*; fn p(a: &GA<u8, U2>) { let (_h, _t): (&GA<u8, U2>, &GA<u8, U2>) = Split::<u8, U2>::split(a); } }
-mod q164 { use super::*; fn p(a: &GA<u8, U2>) { let (_h, _t): (&GA<u8, U3>, &GA<u8, U2>) = Split::<u8, U3>::split(a); } }
-mod q165 { use super::*; fn p(a: &GA<u8, U2>) { let (_h, _t): (&GA<u8, U4>, &GA<u8, U2>) = Split::<u8, U4>::split(a); } }
-mod q166 { use super::*; fn p(a: &GA<u8, U2>) { let (_h, _t): (&GA<u8, U5>, &GA<u8, U2>) = Split::<u8, U5>::split(a); } }
-mod q167 { use super::*; fn p(a: &GA<u8, U2>) { let (_h, _t): (&GA<u8, U6>, &GA<u8, U2>) = Split::<u8, U6>::split(a); } }
-mod q168 { use super::*; fn p(a: &GA<u8, U2>) { let (_h, _t): (&GA<u8, U7>, &GA<u8, U2>) = Split::<u8, U7>::split(a); } }
-mod q169 { use super::*; fn p(a: GA<u8, U2>) { let (_x, _c): (u8, GA<u8, U0>) = a.swap_remove(0); } }
-mod q170 { use super::*; fn p() { let _a: GA<u8, U0> = arr![7u8; 2]; } }
-mod q171 { use super::*; fn p() { let _g: GA<u8, U2> = [0u8; 0].into(); } }
-mod q172 { use super::*; fn p(x: &mut [[u8; 0]]) { let _g: &mut [GA<u8, U2>] = GA::from_chunks_mut(x); } }
-mod q173 { use super::*; fn p(a: GA<u8, U2>) { let _c: GA<u8, U1> = a.prepend(1u8); } }
-mod q174 { use super::*; fn p(a: &GA<u8, U2>) { let _m: GA<u16, U1> = a.map(|x| *x as u16); } }
-mod q175 { use super::*; fn p(a: GA<u8, U2>) { let _x: [u8; 1] = a.into_array(); } }
-mod q176 { use super::*; fn p(a: &mut GA<u8, U2>) { let _r: &mut [u8; 1] = a.as_mut(); } }
-mod q177 { use super::*; fn p(x: &[GA<u8, U2>]) { let _g = GA::<u8, U2>::into_chunks::<1>(x); } }
-mod q178 { use super::*; fn p(a: GA<u8, U2>) { let (_x, _c): (u8, GA<u8, U2>) = a.pop_front(); } }
-mod q179 { use super::*; fn p(a: GA<u8, U2>, b: GA<u8, U2>) { let _z: GA<u16, U2> = a.zip(b, |x, y| x as u16 + y as u16); } }
-mod q180 { use super::*; fn p() { let _g = GA::<u8, U2>::from_array([0u8; 2]); } }
-mod q181 { use super::*; fn p(x: &mut [u8; 2]) { let _g: &mut GA<u8, U2> = x.into(); } }
-mod q182 { use super::*; fn p(x: &mut [GA<u8, U2>]) { let _g = GA::<u8, U2>::into_chunks_mut::<2>(x); } }
-mod q183 { use super::*; fn p(a: GA<u8, U2>) { let (_x, _c): (u8, GA<u8, U3>) = a.swap_remove(0); } }
-mod q184 { use super::*; fn p() { let _a: GA<u8, U3> = arr![7u8; 2]; } }
-mod q185 { use super::*; fn p() { let _g: GA<u8, U2> = [0u8; 3].into(); } }
-mod q186 { use super::*; fn p(x: &mut [[u8; 3]]) { let _g: &mut [GA<u8, U2>] = GA::from_chunks_mut(x); } }
-mod q187 { use super::*; fn p(a: GA<u8, U2>) { let _c: GA<u8, U4> = a.prepend(1u8); } }
-mod q188 { use super::*; fn p(a: &GA<u8, U2>) { let _m: GA<u16, U4> = a.map(|x| *x as u16); } }
-mod q189 { use super::*; fn p(a: GA<u8, U2>) { let _x: [u8; 4] = a.into_array(); } }
-mod q190 { use super::*; fn p(a: &mut GA<u8, U2>) { let _r: &mut [u8; 4] = a.as_mut(); } }
-mod q191 { use super::*; fn p(x: &[GA<u8, U2>]) { let _g = GA::<u8, U2>::into_chunks::<4>(x); } }
-mod q192 { use super::*; fn p(a: GA<u8, U2>) { let (_x, _c): (u8, GA<u8, U5>) = a.pop_front(); } }
-mod q193 { use super::*; fn p(a: GA<u8, U2>, b: GA<u8, U2>) { let _z: GA<u16, U5> = a.zip(b, |x, y| x as u16 + y as u16); } }
-mod q194 { use super::*; fn p() { let _g = GA::<u8, U2>::from_array([0u8; 5]); } }
-mod q195 { use super::*; fn p(x: &mut [u8; 5]) { let _g: &mut GA<u8, U2> = x.into(); } }
-mod q196 { use super::*; fn p(x: &mut [GA<u8, U2>]) { let _g = GA::<u8, U2>::into_chunks_mut::<5>(x); } }
-mod q197 { use super::*; fn p(a: GA<u8, U2>) { let (_x, _c): (u8, GA<u8, U6>) = a.swap_remove(0); } }
-mod q198 { use super::*; fn p() { let _a: GA<u8, U6> = arr![7u8; 2]; } }
-mod q199 { use super::*; fn p() { let _g: GA<u8, U2> = [0u8; 6].into(); } }
-mod q200 { use super::*; fn p(x: &mut [[u8; 6]]) { let _g: &mut [GA<u8, U2>] = GA::from_chunks_mut(x); } }
-mod q201 { use super::*; fn p(a: GA<u8, U2>) { let _c: GA<u8, U7> = a.prepend(1u8); } }
-mod q202 { use super::*; fn p(a: &GA<u8, U2>) { let _m: GA<u16, U7> = a.map(|x| *x as u16); } }
-mod q203 { use super::*; fn p(a: GA<u8, U2>) { let _x: [u8; 7] = a.into_array(); } }
-mod q204 { use super::*; fn p(a: &mut GA<u8, U2>) { let _r: &mut [u8; 7] = a.as_mut(); } }
-mod q205 { use super::*; fn p(x: &[GA<u8, U2>]) { let _g = GA::<u8, U2>::into_chunks::<7>(x); } }
-mod q206 { use super::*; fn p(a: GA<u8, U2>) { let (_x, _c): (u8, GA<u8, U8>) = a.pop_front(); } }
-mod q207 { use super::*; fn p(a: GA<u8, U2>, b: GA<u8, U2>) { let _z: GA<u16, U8> = a.zip(b, |x, y| x as u16 + y as u16); } }
-mod q208 { use super::*; fn p() { let _g = GA::<u8, U2>::from_array([0u8; 8]); } }
-mod q209 { use super::*; fn p(x: &mut [u8; 8]) { let _g: &mut GA<u8, U2> = x.into(); } }
-mod q210 { use super::*; fn p(x: &mut [GA<u8, U2>]) { let _g = GA::<u8, U2>::into_chunks_mut::<8>(x); } }
-mod q211 { use super::*; fn p(a: GA<u8, U2>) { let _u: GA<GA<u8, U0>, U5> = a.unflatten(); } }
-mod q212 { use super::*; fn p(a: GA<u8, U2>) { let _u: GA<GA<u8, U1>, U3> = a.unflatten(); } }
-mod q213 { use super::*; fn p(a: GA<u8, U2>) { let _u: GA<GA<u8, U2>, U1> = a.unflatten(); } }
-mod q214 { use super::*; fn p(a: GA<u8, U2>) { let _u: GA<GA<u8, U2>, U7> = a.unflatten(); } }
-mod q215 { use super::*; fn p(a: GA<u8, U2>) { let _u: GA<GA<u8, U3>, U5> = a.unflatten(); } }
-mod q216 { use super::*; fn p(a: GA<u8, U3>, b: GA<u8, U0>) -> bool { a == b } }
-mod q217 { use super::*; fn p(a: GA<u8, U3>, b: GA<u8, U0>) { let _c: GA<u8, U4> = a.concat(b); } }
-mod q218 { use super::*; fn p(a: &GA<GA<u8, U3>, U0>) { let _f: &GA<u8, U3> = a.flatten(); } }
-mod q219 { use super::*; fn p(a: GA<u8, U3>, b: GA<u8, U1>) -> core::cmp::Ordering { core::cmp::Ord::cmp(&a, &b) } }
-mod q220 { use super::*; fn p(a: &GA<GA<u8, U3>, U1>) { let _f: &GA<u8, U2> = a.flatten(); } }
-mod q221 { use super::*; fn p(a: &GA<u8, U3>, b: &GA<u8, U2>) { let _ = a.zip(b, |x, y| x.wrapping_add(*y)); } }
-mod q222 { use super::*; fn p(a: GA<u8, U3>, b: GA<u8, U2>) { let _c: GA<u8, U4> = a.concat(b); } }
-mod q223 { use super::*; fn p(a: &GA<GA<u8, U3>, U2>) { let _f: &GA<u8, U6> = a.flatten(); } }
-mod q224 { use super::*; fn p(a: GA<u8, U3>, b: GA<u8, U3>) -> bool { a == b } }
-mod q225 { use super::*; fn p(a: GA<u8, U3>, b: GA<u8, U3>) { let _c: GA<u8, U7> = a.concat(b); } }
-mod q226 { use super::*; fn p(a: &GA<GA<u8, U3>, U3>) { let _f: &GA<u8, U9> = a.flatten(); } }
-mod q227 { use super::*; fn p(a: GA<u8, U3>, b: GA<u8, U4>) -> bool { a == b } }
-mod q228 { use super::*; fn p(a: GA<u8, U3>, b: GA<u8, U4>) { let _c: GA<u8, U8> = a.concat(b); } }
-mod q229 { use super::*; fn p(a: &GA<GA<u8, U3>, U4>) { let _f: &GA<u8, U12> = a.flatten(); } }
-mod q230 { use super::*; fn p(a: GA<u8, U3>, b: GA<u8, U5>) -> bool { a == b } }
-mod q231 { use super::*; fn p(a: GA<u8, U3>, b: GA<u8, U5>) { let _c: GA<u8, U9> = a.concat(b); } }
-mod q232 { use super::*; fn p(a: &GA<GA<u8, U3>, U5>) { let _f: &GA<u8, U15> = a.flatten(); } }
-mod q233 { use super::*; fn p(a: GA<u8, U3>, b: GA<u8, U6>) -> bool { a == b } }
-mod q234 { use super::*; fn p(a: GA<u8, U3>, b: GA<u8, U6>) { let _c: GA<u8, U10> = a.concat(b); } }
-mod q235 { use super::*; fn p(a: &GA<GA<u8, U3>, U6>) { let _f: &GA<u8, U18> = a.flatten(); } }
-mod q236 { use super::*; fn p(a: &GA<u8, U3>) { let (_h, _t): (&GA<u8, U0>, &GA<u8, U3>) = Split::<u8, U0>::split(a); } }
-mod q237 { use super::*; fn p(a: &GA<u8, U3>) { let (_h, _t): (&GA<u8, U1>, &GA<u8, U2>) = Split::<u8, U1>::split(a); } }
-mod q238 { use super::*; fn p(a: &GA<u8, U3>) { let (_h, _t): (&GA<u8, U2>, &GA<u8, U1>) = Split::<u8, U2>::split(a); } }
-mod q239 { use super::*; fn p(a: &GA<u8, U3>) { let (_h, _t): (&GA<u8, U3>, &GA<u8, U0>) = Split::<u8, U3>::split(a); } }
-mod q240 { use super::*; fn p(a: &GA<u8, U3>) { let (_h, _t): (&GA<u8, U4>, &GA<u8, U0>) = Split::<u8, U4>::split(a); } }
-mod q241 { use super::*; fn p(a: &GA<u8, U3>) { let (_h, _t): (&GA<u8, U5>, &GA<u8, U0>) = Split::<u8, U5>::split(a); } }
-mod q242 { use super::*; fn p(a: &GA<u8, U3>) { let (_h, _t): (&GA<u8, U6>, &GA<u8, U0>) = Split::<u8, U6>::split(a); } }
-mod q243 { use super::*; fn p(a: &GA<u8, U3>) { let (_h, _t): (&GA<u8, U7>, &GA<u8, U0>) = Split::<u8, U7>::split(a); } }
-mod q244 { use super::*; fn p(a: GA<u8, U3>) { let _c: GA<u8, U0> = a.prepend(1u8); } }
-mod q245 { use super::*; fn p(a: &GA<u8, U3>) { let _m: GA<u16, U0> = a.map(|x| *x as u16); } }
-mod q246 { use super::*; fn p(a: GA<u8, U3>) { let _x: [u8; 0] = a.into_array(); } }
-mod q247 { use super::*; fn p(a: &mut GA<u8, U3>) { let _r: &mut [u8; 0] = a.as_mut(); } }
-mod q248 { use super::*; fn p(x: &[GA<u8, U3>]) { let _g = GA::<u8, U3>::into_chunks::<0>(x); } }
-mod q249 { use super::*; fn p(a: GA<u8, U3>) { let (_x, _c): (u8, GA<u8, U1>) = a.pop_front(); } }
-mod q250 { use super::*; fn p(a: GA<u8, U3>, b: GA<u8, U3>) { let _z: GA<u16, U1> = a.zip(b, |x, y| x as u16 + y as u16); } }
-mod q251 { use super::*; fn p() { let _g = GA::<u8, U3>::from_array([0u8; 1]); } }
-mod q252 { use super::*; fn p(x: &mut [u8; 1]) { let _g: &mut GA<u8, U3> = x.into(); } }
-mod q253 { use super::*; fn p(x: &mut [GA<u8, U3>]) { let _g = GA::<u8, U3>::into_chunks_mut::<1>(x); } }
-mod q254 { use super::*; fn p(a: GA<u8, U3>) { let (_x, _c): (u8, GA<u8, U2>) = a.swap_remove(0); } }
-mod q255 { use super::*; fn p() { let _a: GA<u8, U2> = arr![7u8; 3]; } }
-mod q256 { use super::*; fn p() { let _g: GA<u8, U3> = [0u8; 2].into(); } }
-mod q257 { use super::*; fn p(x: &mut [[u8; 2]]) { let _g: &mut [GA<u8, U3>] = GA::from_chunks_mut(x); } }
-mod q258 { use super::*; fn p(a: GA<u8, U3>) { let _c: GA<u8, U3> = a.prepend(1u8); } }
-mod q259 { use super::*; fn p(a: &GA<u8, U3>) { let _m: GA<u16, U3> = a.map(|x| *x as u16); } }
-mod q260 { use super::*; fn p(a: GA<u8, U3>) { let _x: [u8; 3] = a.into_array(); } }
-mod q261 { use super::*; fn p(a: &mut GA<u8, U3>) { let _r: &mut [u8; 3] = a.as_mut(); } }
-mod q262 { use super::*; fn p(x: &[GA<u8, U3>]) { let _g = GA::<u8, U3>::into_chunks::<3>(x); } }
-mod q263 { use super::*; fn p(a: GA<u8, U3>) { let (_x, _c): (u8, GA<u8, U4>) = a.pop_front(); } }
-mod q264 { use super::*; fn p(a: GA<u8, U3>, b: GA<u8, U3>) { let _z: GA<u16, U4> = a.zip(b, |x, y| x as u16 + y as u16); } }
-mod q265 { use super::*; fn p() { let _g = GA::<u8, U3>::from_array([0u8; 4]); } }
-mod q266 { use super::*; fn p(x: &mut [u8; 4]) { let _g: &mut GA<u8, U3> = x.into(); } }
-mod q267 { use super::*; fn p(x: &mut [GA<u8, U3>]) { let _g = GA::<u8, U3>::into_chunks_mut::<4>(x); } }
-mod q268 { use super::*; fn p(a: GA<u8, U3>) { let (_x, _c): (u8, GA<u8, U5>) = a.swap_remove(0); } }
-mod q269 { use super::*; fn p() { let _a: GA<u8, U5> = arr![7u8; 3]; } }
-mod q270 { use super::*; fn p() { let _g: GA<u8, U3> = [0u8; 5].into(); } }
-mod q271 { use super::*; fn p(x: &mut [[u8; 5]]) { let _g: &mut [GA<u8, U3>] = GA::from_chunks_mut(x); } }
-mod q272 { use super::*; fn p(a: GA<u8, U3>) { let _c: GA<u8, U6> = a.prepend(1u8); } }
-mod q273 { use super::*; fn p(a: &GA<u8, U3>) { let _m: GA<u16, U6> = a.map(|x| *x as u16); } }
-mod q274 { use super::*; fn p(a: GA<u8, U3>) { let _x: [u8; 6] = a.into_array(); } }
-mod q275 { use super::*; fn p(a: &mut GA<u8, U3>) { let _r: &mut [u8; 6] = a.as_mut(); } }
-mod q276 { use super::*; fn p(x: &[GA<u8, U3>]) { let _g = GA::<u8, U3>::into_chunks::<6>(x); } }
-mod q277 { use super::*; fn p(a: GA<u8, U3>) { let (_x, _c): (u8, GA<u8, U7>) = a.pop_front(); } }
-mod q278 { use super::*; fn p(a: GA<u8, U3>, b: GA<u8, U3>) { let _z: GA<u16, U7> = a.zip(b, |x, y| x as u16 + y as u16); } }
-mod q279 { use super::*; fn p() { let _g = GA::<u8, U3>::from_array([0u8; 7]); } }
-mod q280 { use super::*; fn p(x: &mut [u8; 7]) { let _g: &mut GA<u8, U3> = x.into(); } }
-mod q281 { use super::*; fn p(x: &mut [GA<u8, U3>]) { let _g = GA::<u8, U3>::into_chunks_mut::<7>(x); } }
-mod q282 { use super::*; fn p(a: GA<u8, U3>) { let (_x, _c): (u8, GA<u8, U8>) = a.swap_remove(0); } }
-mod q283 { use super::*; fn p() { let _a: GA<u8, U8> = arr![7u8; 3]; } }
-mod q284 { use super::*; fn p() { let _g: GA<u8, U3> = [0u8; 8].into(); } }
-mod q285 { use super::*; fn p(x: &mut [[u8; 8]]) { let _g: &mut [GA<u8, U3>] = GA::from_chunks_mut(x); } }
-mod q286 { use super::*; fn p(a: GA<u8, U3>) { let _u: GA<GA<u8, U0>, U1> = a.unflatten(); } }
-mod q287 { use super::*; fn p(a: GA<u8, U3>) { let _u: GA<GA<u8, U0>, U7> = a.unflatten(); } }
-mod q288 { use super::*; fn p(a: GA<u8, U3>) { let _u: GA<GA<u8, U1>, U5> = a.unflatten(); } }
-mod q289 { use super::*; fn p(a: GA<u8, U3>) { let _u: GA<GA<u8, U2>, U3> = a.unflatten(); } }
-mod q290 { use super::*; fn p(a: GA<u8, U3>) { let _u: GA<GA<u8, U3>, U1> = a.unflatten(); } }
-mod q291 { use super::*; fn p(a: GA<u8, U3>) { let _u: GA<GA<u8, U3>, U7> = a.unflatten(); } }
-mod q292 { use super::*; fn p(a: GA<u8, U4>, b: GA<u8, U0>) -> core::cmp::Ordering { core::cmp::Ord::cmp(&a, &b) } }
-mod q293 { use super::*; fn p(a: &GA<GA<u8, U4>, U0>) { let _f: &GA<u8, U0> = a.flatten(); } }
-mod q294 { use super::*; fn p(a: &GA<u8, U4>, b: &GA<u8, U1>) { let _ = a.zip(b, |x, y| x.wrapping_add(*y)); } }
-mod q295 { use super::*; fn p(a: GA<u8, U4>, b: GA<u8, U1>) { let _c: GA<u8, U4> = a.concat(b); } }
-mod q296 { use super::*; fn p(a: &GA<GA<u8, U4>, U1>) { let _f: &GA<u8, U4> = a.flatten(); } }
-mod q297 { use super::*; fn p(a: GA<u8, U4>, b: GA<u8, U2>) -> bool { a == b } }
-mod q298 { use super::*; fn p(a: GA<u8, U4>, b: GA<u8, U2>) { let _c: GA<u8, U7> = a.concat(b); } }
-mod q299 { use super::*; fn p(a: &GA<GA<u8, U4>, U2>) { let _f: &GA<u8, U8> = a.flatten(); } }
-mod q300 { use super::*; fn p(a: GA<u8, U4>, b: GA<u8, U3>) -> bool { a == b } }
-mod q301 { use super::*; fn p(a: GA<u8, U4>, b: GA<u8, U3>) { let _c: GA<u8, U8> = a.concat(b); } }
-mod q302 { use super::*; fn p(a: &GA<GA<u8, U4>, U3>) { let _f: &GA<u8, U12> = a.flatten(); } }
-mod q303 { use super::*; fn p(a: GA<u8, U4>, b: GA<u8, U4>) -> bool { a == b } }
-mod q304 { use super::*; fn p(a: GA<u8, U4>, b: GA<u8, U4>) { let _c: GA<u8, U9> = a.concat(b); } }
-mod q305 { use super::*; fn p(a: &GA<GA<u8, U4>, U4>) { let _f: &GA<u8, U16> = a.flatten(); } }
-mod q306 { use super::*; fn p(a: GA<u8, U4>, b: GA<u8, U5>) -> bool { a == b } }
-mod q307 { use super::*; fn p(a: GA<u8, U4>, b: GA<u8, U5>) { let _c: GA<u8, U10> = a.concat(b); } }
-mod q308 { use super::*; fn p(a: &GA<GA<u8, U4>, U5>) { let _f: &GA<u8, U20> = a.flatten(); } }
-mod q309 { use super::*; fn p(a: GA<u8, U4>, b: GA<u8, U6>) -> bool { a == b } }
-mod q310 { use super::*; fn p(a: GA<u8, U4>, b: GA<u8, U6>) { let _c: GA<u8, U11> = a.concat(b); } }
-mod q311 { use super::*; fn p(a: &GA<GA<u8, U4>, U6>) { let _f: &GA<u8, U24> = a.flatten(); } }
-mod q312 { use super::*; fn p(a: &GA<u8, U4>) { let (_h, _t): (&GA<u8, U0>, &GA<u8, U4>) = Split::<u8, U0>::split(a); } }
-mod q313 { use super::*; fn p(a: &GA<u8, U4>) { let (_h, _t): (&GA<u8, U1>, &GA<u8, U3>) = Split::<u8, U1>::split(a); } }
-mod q314 { use super::*; fn p(a: &GA<u8, U4>) { let (_h, _t): (&GA<u8, U2>, &GA<u8, U2>) = Split::<u8, U2>::split(a); } }
-mod q315 { use super::*; fn p(a: &GA<u8, U4>) { let (_h, _t): (&GA<u8, U3>, &GA<u8, U0>) = Split::<u8, U3>::split(a); } }
-mod q316 { use super::*; fn p(a: &GA<u8, U4>) { let (_h, _t): (&GA<u8, U3>, &GA<u8, U4>) = Split::<u8, U3>::split(a); } }
-mod q317 { use super::*; fn p(a: &GA<u8, U4>) { let (_h, _t): (&GA<u8, U4>, &GA<u8, U4>) = Split::<u8, U4>::split(a); } }
-mod q318 { use super::*; fn p(a: &GA<u8, U4>) { let (_h, _t): (&GA<u8, U5>, &GA<u8, U4>) = Split::<u8, U5>::split(a); } }
-mod q319 { use super::*; fn p(a: &GA<u8, U4>) { let (_h, _t): (&GA<u8, U6>, &GA<u8, U4>) = Split::<u8, U6>::split(a); } }
-mod q320 { use super::*; fn p(a: &GA<u8, U4>) { let (_h, _t): (&GA<u8, U7>, &GA<u8, U4>) = Split::<u8, U7>::split(a); } }
-mod q321 { use super::*; fn p(a: GA<u8, U4>) { let (_x, _c): (u8, GA<u8, U0>) = a.swap_remove(0); } }
-mod q322 { use super::*; fn p() { let _a: GA<u8, U0> = arr![7u8; 4]; } }
-mod q323 { use super::*; fn p() { let _g: GA<u8, U4> = [0u8; 0].into(); } }
-mod q324 { use super::*; fn p(x: &mut [[u8; 0]]) { let _g: &mut [GA<u8, U4>] = GA::from_chunks_mut(x); } }
-mod q325 { use super::*; fn p(a: GA<u8, U4>) { let _c: GA<u8, U1> = a.prepend(1u8); } }
-mod q326 { use super::*; fn p(a: &GA<u8, U4>) { let _m: GA<u16, U1> = a.map(|x| *x as u16); } }
-mod q327 { use super::*; fn p(a: GA<u8, U4>) { let _x: [u8; 1] = a.into_array(); } }
-mod q328 { use super::*; fn p(a: &mut GA<u8, U4>) { let _r: &mut [u8; 1] = a.as_mut(); } }
-mod q329 { use super::*; fn p(x: &[GA<u8, U4>]) { let _g = GA::<u8, U4>::into_chunks::<1>(x); } }
-mod q330 { use super::*; fn p(a: GA<u8, U4>) { let (_x, _c): (u8, GA<u8, U2>) = a.pop_front(); } }
-mod q331 { use super::*; fn p(a: GA<u8, U4>, b: GA<u8, U4>) { let _z: GA<u16, U2> = a.zip(b, |x, y| x as u16 + y as u16); } }
-mod q332 { use super::*; fn p() { let _g = GA::<u8, U4>::from_array([0u8; 2]); } }
-mod q333 { use super::*; fn p(x: &mut [u8; 2]) { let _g: &mut GA<u8, U4> = x.into(); } }
-mod q334 { use super::*; fn p(x: &mut [GA<u8, U4>]) { let _g = GA::<u8, U4>::into_chunks_mut::<2>(x); } }
-mod q335 { use super::*; fn p(a: GA<u8, U4>) { let (_x, _c): (u8, GA<u8, U3>) = a.swap_remove(0); } }
-mod q336 { use super::*; fn p() { let _a: GA<u8, U3> = arr![7u8; 4]; } }
-mod q337 { use super::*; fn p() { let _g: GA<u8, U4> = [0u8; 3].into(); } }
-mod q338 { use super::*; fn p(x: &mut [[u8; 3]]) { let _g: &mut [GA<u8, U4>] = GA::from_chunks_mut(x); } }
-mod q339 { use super::*; fn p(a: GA<u8, U4>) { let _c: GA<u8, U4> = a.prepend(1u8); } }
-mod q340 { use super::*; fn p(a: &GA<u8, U4>) { let _m: GA<u16, U4> = a.map(|x| *x as u16); } }
-mod q341 { use super::*; fn p(a: GA<u8, U4>) { let _x: [u8; 4] = a.into_array(); } }
-mod q342 { use super::*; fn p(a: &mut GA<u8, U4>) { let _r: &mut [u8; 4] = a.as_mut(); } }
-mod q343 { use super::*; fn p(x: &[GA<u8, U4>]) { let _g = GA::<u8, U4>::into_chunks::<4>(x); } }
-mod q344 { use super::*; fn p(a: GA<u8, U4>) { let (_x, _c): (u8, GA<u8, U5>) = a.pop_front(); } }
-mod q345 { use super::*; fn p(a: GA<u8, U4>, b: GA<u8, U4>) { let _z: GA<u16, U5> = a.zip(b, |x, y| x as u16 + y as u16); } }
-mod q346 { use super::*; fn p() { let _g = GA::<u8, U4>::from_array([0u8; 5]); } }
-mod q347 { use super::*; fn p(x: &mut [u8; 5]) { let _g: &mut GA<u8, U4> = x.into(); } }
-mod q348 { use super::*; fn p(x: &mut [GA<u8, U4>]) { let _g = GA::<u8, U4>::into_chunks_mut::<5>(x); } }
-mod q349 { use super::*; fn p(a: GA<u8, U4>) { let (_x, _c): (u8, GA<u8, U6>) = a.swap_remove(0); } }
-mod q350 { use super::*; fn p() { let _a: GA<u8, U6> = arr![7u8; 4]; } }
-mod q351 { use super::*; fn p() { let _g: GA<u8, U4> = [0u8; 6].into(); } }
-mod q352 { use super::*; fn p(x: &mut [[u8; 6]]) { let _g: &mut [GA<u8, U4>] = GA::from_chunks_mut(x); } }
-mod q353 { use super::*; fn p(a: GA<u8, U4>) { let _c: GA<u8, U7> = a.prepend(1u8); } }
-mod q354 { use super::*; fn p(a: &GA<u8, U4>) { let _m: GA<u16, U7> = a.map(|x| *x as u16); } }
-mod q355 { use super::*; fn p(a: GA<u8, U4>) { let _x: [u8; 7] = a.into_array(); } }
-mod q356 { use super::*; fn p(a: &mut GA<u8, U4>) { let _r: &mut [u8; 7] = a.as_mut(); } }
-mod q357 { use super::*; fn p(x: &[GA<u8, U4>]) { let _g = GA::<u8, U4>::into_chunks::<7>(x); } }
-mod q358 { use super::*; fn p(a: GA<u8, U4>) { let (_x, _c): (u8, GA<u8, U8>) = a.pop_front(); } }
-mod q359 { use super::*; fn p(a: GA<u8, U4>, b: GA<u8, U4>) { let _z: GA<u16, U8> = a.zip(b, |x, y| x as u16 + y as u16); } }
-mod q360 { use super::*; fn p() { let _g = GA::<u8, U4>::from_array([0u8; 8]); } }
-mod q361 { use super::*; fn p(x: &mut [u8; 8]) { let _g: &mut GA<u8, U4> = x.into(); } }
-mod q362 { use super::*; fn p(x: &mut [GA<u8, U4>]) { let _g = GA::<u8, U4>::into_chunks_mut::<8>(x); } }
-mod q363 { use super::*; fn p(a: GA<u8, U4>) { let _u: GA<GA<u8, U0>, U5> = a.unflatten(); } }
-mod q364 { use super::*; fn p(a: GA<u8, U4>) { let _u: GA<GA<u8, U1>, U3> = a.unflatten(); } }
-mod q365 { use super::*; fn p(a: GA<u8, U4>) { let _u: GA<GA<u8, U2>, U1> = a.unflatten(); } }
-mod q366 { use super::*; fn p(a: GA<u8, U4>) { let _u: GA<GA<u8, U2>, U7> = a.unflatten(); } }
-mod q367 { use super::*; fn p(a: GA<u8, U4>) { let _u: GA<GA<u8, U3>, U5> = a.unflatten(); } }
-mod q368 { use super::*; fn p(a: GA<u8, U5>, b: GA<u8, U0>) -> bool { a == b } }
-mod q369 { use super::*; fn p(a: GA<u8, U5>, b: GA<u8, U0>) { let _c: GA<u8, U6> = a.concat(b); } }
-mod q370 { use super::*; fn p(a: &GA<GA<u8, U5>, U0>) { let _f: &GA<u8, U5> = a.flatten(); } }
-mod q371 { use super::*; fn p(a: GA<u8, U5>, b: GA<u8, U1>) -> core::cmp::Ordering { core::cmp::Ord::cmp(&a, &b) } }
-mod q372 { use super::*; fn p(a: &GA<GA<u8, U5>, U1>) { let _f: &GA<u8, U4> = a.flatten(); } }
-mod q373 { use super::*; fn p(a: &GA<u8, U5>, b: &GA<u8, U2>) { let _ = a.zip(b, |x, y| x.wrapping_add(*y)); } }
-mod q374 { use super::*; fn p(a: GA<u8, U5>, b: GA<u8, U2>) { let _c: GA<u8, U6> = a.concat(b); } }
-mod q375 { use super::*; fn p(a: &GA<GA<u8, U5>, U2>) { let _f: &GA<u8, U9> = a.flatten(); } }
-mod q376 { use super::*; fn p(a: &GA<u8, U5>, b: &GA<u8, U3>) { let _ = a.zip(b, |x, y| x.wrapping_add(*y)); } }
-mod q377 { use super::*; fn p(a: GA<u8, U5>, b: GA<u8, U3>) { let _c: GA<u8, U7> = a.concat(b); } }
-mod q378 { use super::*; fn p(a: &GA<GA<u8, U5>, U3>) { let _f: &GA<u8, U14> = a.flatten(); } }
-mod q379 { use super::*; fn p(a: &GA<u8, U5>, b: &GA<u8, U4>) { let _ = a.zip(b, |x, y| x.wrapping_add(*y)); } }
-mod q380 { use super::*; fn p(a: GA<u8, U5>, b: GA<u8, U4>) { let _c: GA<u8, U8> = a.concat(b); } }
-mod q381 { use super::*; fn p(a: &GA<GA<u8, U5>, U4>) { let _f: &GA<u8, U19> = a.flatten(); } }
-mod q382 { use super::*; fn p(a: &GA<u8, U5>, b: &GA<u8, U5>) { let _ = a.zip(b, |x, y| x.wrapping_add(*y)); } }
-mod q383 { use super::*; fn p(a: GA<u8, U5>, b: GA<u8, U5>) { let _c: GA<u8, U9> = a.concat(b); } }
-mod q384 { use super::*; fn p(a: &GA<GA<u8, U5>, U5>) { let _f: &GA<u8, U24> = a.flatten(); } }
-mod q385 { use super::*; fn p(a: &GA<u8, U5>, b: &GA<u8, U6>) { let _ = a.zip(b, |x, y| x.wrapping_add(*y)); } }
-mod q386 { use super::*; fn p(a: GA<u8, U5>, b: GA<u8, U6>) { let _c: GA<u8, U10> = a.concat(b); } }
-mod q387 { use super::*; fn p(a: &GA<GA<u8, U5>, U6>) { let _f: &GA<u8, U29> = a.flatten(); } }
-mod q388 { use super::*; fn p(a: &GA<u8, U5>) { let (_h, _t): (&GA<u8, U0>, &GA<u8, U0>) = Split::<u8, U0>::split(a); } }
-mod q389 { use super::*; fn p(a: &GA<u8, U5>) { let (_h, _t): (&GA<u8, U1>, &GA<u8, U0>) = Split::<u8, U1>::split(a); } }
-mod q390 { use super::*; fn p(a: &GA<u8, U5>) { let (_h, _t): (&GA<u8, U2>, &GA<u8, U0>) = Split::<u8, U2>::split(a); } }
-mod q391 { use super::*; fn p(a: &GA<u8, U5>) { let (_h, _t): (&GA<u8, U2>, &GA<u8, U5>) = Split::<u8, U2>::split(a); } }
-mod q392 { use super::*; fn p(a: &GA<u8, U5>) { let (_h, _t): (&GA<u8, U3>, &GA<u8, U3>) = Split::<u8, U3>::split(a); } }
-mod q393 { use super::*; fn p(a: &GA<u8, U5>) { let (_h, _t): (&GA<u8, U4>, &GA<u8, U1>) = Split::<u8, U4>::split(a); } }
-mod q394 { use super::*; fn p(a: &GA<u8, U5>) { let (_h, _t): (&GA<u8, U5>, &GA<u8, U0>) = Split::<u8, U5>::split(a); } }
-mod q395 { use super::*; fn p(a: &GA<u8, U5>) { let (_h, _t): (&GA<u8, U6>, &GA<u8, U0>) = Split::<u8, U6>::split(a); } }
-mod q396 { use super::*; fn p(a: &GA<u8, U5>) { let (_h, _t): (&GA<u8, U7>, &GA<u8, U0>) = Split::<u8, U7>::split(a); } }
-mod q397 { use super::*; fn p(a: GA<u8, U5>) { let _c: GA<u8, U0> = a.prepend(1u8); } }
-mod q398 { use super::*; fn p(a: &GA<u8, U5>) { let _m: GA<u16, U0> = a.map(|x| *x as u16); } }
-mod q399 { use super::*; fn p(a: GA<u8, U5>) { let _x: [u8; 0] = a.into_array(); } }
-mod q400 { use super::*; fn p(a: &mut GA<u8, U5>) { let _r: &mut [u8; 0] = a.as_mut(); } }
-mod q401 { use super::*; fn p(x: &[GA<u8, U5>]) { let _g = GA::<u8, U5>::into_chunks::<0>(x); } }
-mod q402 { use super::*; fn p(a: GA<u8, U5>) { let (_x, _c): (u8, GA<u8, U1>) = a.pop_front(); } }
-mod q403 { use super::*; fn p(a: GA<u8, U5>, b: GA<u8, U5>) { let _z: GA<u16, U1> = a.zip(b, |x, y| x as u16 + y as u16); } }
-mod q404 { use super::*; fn p() { let _g = GA::<u8, U5>::from_array([0u8; 1]); } }
-mod q405 { use super::*; fn p(x: &mut [u8; 1]) { let _g: &mut GA<u8, U5> = x.into(); } }
-mod q406 { use super::*; fn p(x: &mut [GA<u8, U5>]) { let _g = GA::<u8, U5>::into_chunks_mut::<1>(x); } }
-mod q407 { use super::*; fn p(a: GA<u8, U5>) { let (_x, _c): (u8, GA<u8, U2>) = a.swap_remove(0); } }
-mod q408 { use super::*; fn p() { let _a: GA<u8, U2> = arr![7u8; 5]; } }
-mod q409 { use super::*; fn p() { let _g: GA<u8, U5> = [0u8; 2].into(); } }
-mod q410 { use super::*; fn p(x: &mut [[u8; 2]]) { let _g: &mut [GA<u8, U5>] = GA::from_chunks_mut(x); } }
-mod q411 { use super::*; fn p(a: GA<u8, U5>) { let _c: GA<u8, U3> = a.prepend(1u8); } }
-mod q412 { use super::*; fn p(a: &GA<u8, U5>) { let _m: GA<u16, U3> = a.map(|x| *x as u16); } }
-mod q413 { use super::*; fn p(a: GA<u8, U5>) { let _x: [u8; 3] = a.into_array(); } }
-mod q414 { use super::*; fn p(a: &mut GA<u8, U5>) { let _r: &mut [u8; 3] = a.as_mut(); } }
-mod q415 { use super::*; fn p(x: &[GA<u8, U5>]) { let _g = GA::<u8, U5>::into_chunks::<3>(x); } }
-mod q416 { use super::*; fn p(a: GA<u8, U5>) { let (_x, _c): (u8, GA<u8, U4>) = a.pop_front(); } }
-mod q417 { use super::*; fn p(a: GA<u8, U5>, b: GA<u8, U5>) { let _z: GA<u16, U4> = a.zip(b, |x, y| x as u16 + y as u16); } }
-mod q418 { use super::*; fn p() { let _g = GA::<u8, U5>::from_array([0u8; 4]); } }
-mod q419 { use super::*; fn p(x: &mut [u8; 4]) { let _g: &mut GA<u8, U5> = x.into(); } }
-mod q420 { use super::*; fn p(x: &mut [GA<u8, U5>]) { let _g = GA::<u8, U5>::into_chunks_mut::<4>(x); } }
-mod q421 { use super::*; fn p(a: GA<u8, U5>) { let (_x, _c): (u8, GA<u8, U5>) = a.swap_remove(0); } }
-mod q422 { use super::*; fn p() { let _a: GA<u8, U5> = arr![7u8; 5]; } }
-mod q423 { use super::*; fn p() { let _g: GA<u8, U5> = [0u8; 5].into(); } }
-mod q424 { use super::*; fn p(x: &mut [[u8; 5]]) { let _g: &mut [GA<u8, U5>] = GA::from_chunks_mut(x); } }
-mod q425 { use super::*; fn p(a: GA<u8, U5>) { let _c: GA<u8, U6> = a.prepend(1u8); } }
-mod q426 { use super::*; fn p(a: &GA<u8, U5>) { let _m: GA<u16, U6> = a.map(|x| *x as u16); } }
-mod q427 { use super::*; fn p(a: GA<u8, U5>) { let _x: [u8; 6] = a.into_array(); } }
-mod q428 { use super::*; fn p(a: &mut GA<u8, U5>) { let _r: &mut [u8; 6] = a.as_mut(); } }
-mod q429 { use super::*; fn p(x: &[GA<u8, U5>]) { let _g = GA::<u8, U5>::into_chunks::<6>(x); } }
-mod q430 { use super::*; fn p(a: GA<u8, U5>) { let (_x, _c): (u8, GA<u8, U7>) = a.pop_front(); } }
-mod q431 { use super::*; fn p(a: GA<u8, U5>, b: GA<u8, U5>) { let _z: GA<u16, U7> = a.zip(b, |x, y| x as u16 + y as u16); } }
-mod q432 { use super::*; fn p() { let _g = GA::<u8, U5>::from_array([0u8; 7]); } }
-mod q433 { use super::*; fn p(x: &mut [u8; 7]) { let _g: &mut GA<u8, U5> = x.into(); } }
-mod q434 { use super::*; fn p(x: &mut [GA<u8, U5>]) { let _g = GA::<u8, U5>::into_chunks_mut::<7>(x); } }
-mod q435 { use super::*; fn p(a: GA<u8, U5>) { let (_x, _c): (u8, GA<u8, U8>) = a.swap_remove(0); } }
-mod q436 { use super::*; fn p() { let _a: GA<u8, U8> = arr![7u8; 5]; } }
-mod q437 { use super::*; fn p() { let _g: GA<u8, U5> = [0u8; 8].into(); } }
-mod q438 { use super::*; fn p(x: &mut [[u8; 8]]) { let _g: &mut [GA<u8, U5>] = GA::from_chunks_mut(x); } }
-mod q439 { use super::*; fn p(a: GA<u8, U5>) { let _u: GA<GA<u8, U0>, U1> = a.unflatten(); } }
-mod q440 { use super::*; fn p(a: GA<u8, U5>) { let _u: GA<GA<u8, U0>, U7> = a.unflatten(); } }
-mod q441 { use super::*; fn p(a: GA<u8, U5>) { let _u: GA<GA<u8, U1>, U5> = a.unflatten(); } }
-mod q442 { use super::*; fn p(a: GA<u8, U5>) { let _u: GA<GA<u8, U2>, U3> = a.unflatten(); } }
-mod q443 { use super::*; fn p(a: GA<u8, U5>) { let _u: GA<GA<u8, U3>, U1> = a.unflatten(); } }
-mod q444 { use super::*; fn p(a: GA<u8, U5>) { let _u: GA<GA<u8, U3>, U7> = a.unflatten(); } }
-mod q445 { use super::*; fn p(a: GA<u8, U6>, b: GA<u8, U0>) -> core::cmp::Ordering { core::cmp::Ord::cmp(&a, &b) } }
-mod q446 { use super::*; fn p(a: &GA<GA<u8, U6>, U0>) { let _f: &GA<u8, U0> = a.flatten(); } }
-mod q447 { use super::*; fn p(a: &GA<u8, U6>, b: &GA<u8, U1>) { let _ = a.zip(b, |x, y| x.wrapping_add(*y)); } }
-mod q448 { use super::*; fn p(a: GA<u8, U6>, b: GA<u8, U1>) { let _c: GA<u8, U6> = a.concat(b); } }
-mod q449 { use super::*; fn p(a: &GA<GA<u8, U6>, U1>) { let _f: &GA<u8, U6> = a.flatten(); } }
-mod q450 { use super::*; fn p(a: GA<u8, U6>, b: GA<u8, U2>) -> bool { a == b } }
-mod q451 { use super::*; fn p(a: GA<u8, U6>, b: GA<u8, U2>) { let _c: GA<u8, U9> = a.concat(b); } }
-mod q452 { use super::*; fn p(a: &GA<GA<u8, U6>, U2>) { let _f: &GA<u8, U12> = a.flatten(); } }
-mod q453 { use super::*; fn p(a: GA<u8, U6>, b: GA<u8, U3>) -> bool { a == b } }
-mod q454 { use super::*; fn p(a: GA<u8, U6>, b: GA<u8, U3>) { let _c: GA<u8, U10> = a.concat(b); } }
-mod q455 { use super::*; fn p(a: &GA<GA<u8, U6>, U3>) { let _f: &GA<u8, U18> = a.flatten(); } }
-mod q456 { use super::*; fn p(a: GA<u8, U6>, b: GA<u8, U4>) -> bool { a == b } }
-mod q457 { use super::*; fn p(a: GA<u8, U6>, b: GA<u8, U4>) { let _c: GA<u8, U11> = a.concat(b); } }
-mod q458 { use super::*; fn p(a: &GA<GA<u8, U6>, U4>) { let _f: &GA<u8, U24> = a.flatten(); } }
-mod q459 { use super::*; fn p(a: GA<u8, U6>, b: GA<u8, U5>) -> bool { a == b } }
-mod q460 { use super::*; fn p(a: GA<u8, U6>, b: GA<u8, U5>) { let _c: GA<u8, U12> = a.concat(b); } }
-mod q461 { use super::*; fn p(a: &GA<GA<u8, U6>, U5>) { let _f: &GA<u8, U30> = a.flatten(); } }
-mod q462 { use super::*; fn p(a: GA<u8, U6>, b: GA<u8, U6>) -> bool { a == b } }
-mod q463 { use super::*; fn p(a: GA<u8, U6>, b: GA<u8, U6>) { let _c: GA<u8, U13> = a.concat(b); } }
-mod q464 { use super::*; fn p(a: &GA<GA<u8, U6>, U6>) { let _f: &GA<u8, U36> = a.flatten(); } }
-mod q465 { use super::*; fn p(a: &GA<u8, U6>) { let (_h, _t): (&GA<u8, U0>, &GA<u8, U6>) = Split::<u8, U0>::split(a); } }
-mod q466 { use super::*; fn p(a: &GA<u8, U6>) { let (_h, _t): (&GA<u8, U1>, &GA<u8, U5>) = Split::<u8, U1>::split(a); } }
-mod q467 { use super::*; fn p(a: &GA<u8, U6>) { let (_h, _t): (&GA<u8, U2>, &GA<u8, U4>) = Split::<u8, U2>::split(a); } }
-mod q468 { use super::*; fn p(a: &GA<u8, U6>) { let (_h, _t): (&GA<u8, U3>, &GA<u8, U0>) = Split::<u8, U3>::split(a); } }
-mod q469 { use super::*; fn p(a: &GA<u8, U6>) { let (_h, _t): (&GA<u8, U3>, &GA<u8, U6>) = Split::<u8, U3>::split(a); } }
-mod q470 { use super::*; fn p(a: &GA<u8, U6>) { let (_h, _t): (&GA<u8, U4>, &GA<u8, U3>) = Split::<u8, U4>::split(a); } }
-mod q471 { use super::*; fn p(a: &GA<u8, U6>) { let (_h, _t): (&GA<u8, U5>, &GA<u8, U1>) = Split::<u8, U5>::split(a); } }
-mod q472 { use super::*; fn p(a: &GA<u8, U6>) { let (_h, _t): (&GA<u8, U6>, &GA<u8, U0>) = Split::<u8, U6>::split(a); } }
-mod q473 { use super::*; fn p(a: &GA<u8, U6>) { let (_h, _t): (&GA<u8, U7>, &GA<u8, U0>) = Split::<u8, U7>::split(a); } }
-mod q474 { use super::*; fn p(a: GA<u8, U6>) { let _c: GA<u8, U0> = a.prepend(1u8); } }
-mod q475 { use super::*; fn p(a: &GA<u8, U6>) { let _m: GA<u16, U0> = a.map(|x| *x as u16); } }
-mod q476 { use super::*; fn p(a: GA<u8, U6>) { let _x: [u8; 0] = a.into_array(); } }
-mod q477 { use super::*; fn p(a: &mut GA<u8, U6>) { let _r: &mut [u8; 0] = a.as_mut(); } }
-mod q478 { use super::*; fn p(x: &[GA<u8, U6>]) { let _g = GA::<u8, U6>::into_chunks::<0>(x); } }
-mod q479 { use super::*; fn p(a: GA<u8, U6>) { let (_x, _c): (u8, GA<u8, U1>) = a.pop_front(); } }
-mod q480 { use super::*; fn p(a: GA<u8, U6>, b: GA<u8, U6>) { let _z: GA<u16, U1> = a.zip(b, |x, y| x as u16 + y as u16); } }
-mod q481 { use super::*; fn p() { let _g = GA::<u8, U6>::from_array([0u8; 1]); } }
-mod q482 { use super::*; fn p(x: &mut [u8; 1]) { let _g: &mut GA<u8, U6> = x.into(); } }
-mod q483 { use super::*; fn p(x: &mut [GA<u8, U6>]) { let _g = GA::<u8, U6>::into_chunks_mut::<1>(x); } }
-mod q484 { use super::*; fn p(a: GA<u8, U6>) { let (_x, _c): (u8, GA<u8, U2>) = a.swap_remove(0); } }
-mod q485 { use super::*; fn p() { let _a: GA<u8, U2> = arr![7u8; 6]; } }
-mod q486 { use super::*; fn p() { let _g: GA<u8, U6> = [0u8; 2].into(); } }
-mod q487 { use super::*; fn p(x: &mut [[u8; 2]]) { let _g: &mut [GA<u8, U6>] = GA::from_chunks_mut(x); } }
-mod q488 { use super::*; fn p(a: GA<u8, U6>) { let _c: GA<u8, U3> = a.prepend(1u8); } }
-mod q489 { use super::*; fn p(a: &GA<u8, U6>) { let _m: GA<u16, U3> = a.map(|x| *x as u16); } }
-mod q490 { use super::*; fn p(a: GA<u8, U6>) { let _x: [u8; 3] = a.into_array(); } }
-mod q491 { use super::*; fn p(a: &mut GA<u8, U6>) { let _r: &mut [u8; 3] = a.as_mut(); } }
-mod q492 { use super::*; fn p(x: &[GA<u8, U6>]) { let _g = GA::<u8, U6>::into_chunks::<3>(x); } }
-mod q493 { use super::*; fn p(a: GA<u8, U6>) { let (_x, _c): (u8, GA<u8, U4>) = a.pop_front(); } }
-mod q494 { use super::*; fn p(a: GA<u8, U6>, b: GA<u8, U6>) { let _z: GA<u16, U4> = a.zip(b, |x, y| x as u16 + y as u16); } }
-mod q495 { use super::*; fn p() { let _g = GA::<u8, U6>::from_array([0u8; 4]); } }
-mod q496 { use super::*; fn p(x: &mut [u8; 4]) { let _g: &mut GA<u8, U6> = x.into(); } }
-mod q497 { use super::*; fn p(x: &mut [GA<u8, U6>]) { let _g = GA::<u8, U6>::into_chunks_mut::<4>(x); } }
-mod q498 { use super::*; fn p(a: GA<u8, U6>) { let (_x, _c): (u8, GA<u8, U5>) = a.swap_remove(0); } }
-mod q499 { use super::*; fn p() { let _a: GA<u8, U5> = arr![7u8; 6]; } }
-mod q500 { use super::*; fn p() { let _g: GA<u8, U6> = [0u8; 5].into(); } }
-mod q501 { use super::*; fn p(x: &mut [[u8; 5]]) { let _g: &mut [GA<u8, U6>] = GA::from_chunks_mut(x); } }
-mod q502 { use super::*; fn p(a: GA<u8, U6>) { let _c: GA<u8, U6> = a.prepend(1u8); } }
-mod q503 { use super::*; fn p(a: &GA<u8, U6>) { let _m: GA<u16, U6> = a.map(|x| *x as u16); } }
-mod q504 { use super::*; fn p(a: GA<u8, U6>) { let _x: [u8; 6] = a.into_array(); } }
-mod q505 { use super::*; fn p(a: &mut GA<u8, U6>) { let _r: &mut [u8; 6] = a.as_mut(); } }
-mod q506 { use super::*; fn p(x: &[GA<u8, U6>]) { let _g = GA::<u8, U6>::into_chunks::<6>(x); } }
-mod q507 { use super::*; fn p(a: GA<u8, U6>) { let (_x, _c): (u8, GA<u8, U7>) = a.pop_front(); } }
-mod q508 { use super::*; fn p(a: GA<u8, U6>, b: GA<u8, U6>) { let _z: GA<u16, U7> = a.zip(b, |x, y| x as u16 + y as u16); } }
-mod q509 { use super::*; fn p() { let _g = GA::<u8, U6>::from_array([0u8; 7]); } }
-mod q510 { use super::*; fn p(x: &mut [u8; 7]) { let _g: &mut GA<u8, U6> = x.into(); } }
-mod q511 { use super::*; fn p(x: &mut [GA<u8, U6>]) { let _g = GA::<u8, U6>::into_chunks_mut::<7>(x); } }
-mod q512 { use super::*; fn p(a: GA<u8, U6>) { let (_x, _c): (u8, GA<u8, U8>) = a.swap_remove(0); } }
-mod q513 { use super::*; fn p() { let _a: GA<u8, U8> = arr![7u8; 6]; } }
-mod q514 { use super::*; fn p() { let _g: GA<u8, U6> = [0u8; 8].into(); } }
-mod q515 { use super::*; fn p(x: &mut [[u8; 8]]) { let _g: &mut [GA<u8, U6>] = GA::from_chunks_mut(x); } }
-mod q516 { use super::*; fn p(a: GA<u8, U6>) { let _u: GA<GA<u8, U0>, U1> = a.unflatten(); } }
-mod q517 { use super::*; fn p(a: GA<u8, U6>) { let _u: GA<GA<u8, U0>, U7> = a.unflatten(); } }
-mod q518 { use super::*; fn p(a: GA<u8, U6>) { let _u: GA<GA<u8, U1>, U5> = a.unflatten(); } }
-mod q519 { use super::*; fn p(a: GA<u8, U6>) { let _u: GA<GA<u8, U2>, U3> = a.unflatten(); } }
-mod q520 { use super::*; fn p(a: GA<u8, U6>) { let _u: GA<GA<u8, U3>, U1> = a.unflatten(); } }
-mod q521 { use super::*; fn p(a: GA<u8, U6>) { let _u: GA<GA<u8, U3>, U7> = a.unflatten(); } }
-mod q522 { use super::*; fn p(a: GA<u8, U2>) { let _t: (u8, ) = a.into(); } }
-mod q523 { use super::*; fn p(a: GA<u8, U0>) { let _t: (u8, u8, ) = a.into(); } }
-mod q524 { use super::*; fn p(a: GA<u8, U3>) { let _t: (u8, u8, ) = a.into(); } }
-mod q525 { use super::*; fn p(a: GA<u8, U0>) { let _t: (u8, u8, u8, ) = a.into(); } }
-mod q526 { use super::*; fn p(a: GA<u8, U4>) { let _t: (u8, u8, u8, ) = a.into(); } }
-mod q527 { use super::*; fn p(a: GA<u8, U0>) { let _t: (u8, u8, u8, u8, ) = a.into(); } }
-mod q528 { use super::*; fn p(a: GA<u8, U5>) { let _t: (u8, u8, u8, u8, ) = a.into(); } }
-mod q529 { use super::*; fn p(a: GA<u8, U0>) { let _t: (u8, u8, u8, u8, u8, ) = a.into(); } }
-mod q530 { use super::*; fn p(a: GA<u8, U6>) { let _t: (u8, u8, u8, u8, u8, ) = a.into(); } }
-mod q531 { use super::*; fn p(a: GA<u8, U0>) { let _t: (u8, u8, u8, u8, u8, u8, ) = a.into(); } }
-mod q532 { use super::*; fn p(a: GA<u8, U7>) { let _t: (u8, u8, u8, u8, u8, u8, ) = a.into(); } }
-mod q533 { use super::*; fn p(a: GA<u8, U0>) { let _t: (u8, u8, u8, u8, u8, u8, u8, ) = a.into(); } }
-mod q534 { use super::*; fn p(a: GA<u8, U8>) { let _t: (u8, u8, u8, u8, u8, u8, u8, ) = a.into(); } }
-mod q535 { use super::*; fn p(a: GA<u8, U0>) { let _t: (u8, u8, u8, u8, u8, u8, u8, u8, ) = a.into(); } }
-mod q536 { use super::*; fn p(a: GA<u8, U9>) { let _t: (u8, u8, u8, u8, u8, u8, u8, u8, ) = a.into(); } }
-mod q537 { use super::*; fn p(a: GA<u8, U0>) { let _t: (u8, u8, u8, u8, u8, u8, u8, u8, u8, ) = a.into(); } }
-mod q538 { use super::*; fn p(a: GA<u8, U10>) { let _t: (u8, u8, u8, u8, u8, u8, u8, u8, u8, ) = a.into(); } }
-mod q539 { use super::*; fn p(a: GA<u8, U0>) { let _t: (u8, u8, u8, u8, u8, u8, u8, u8, u8, u8, ) = a.into(); } }
-mod q540 { use super::*; fn p(a: GA<u8, U11>) { let _t: (u8, u8, u8, u8, u8, u8, u8, u8, u8, u8, ) = a.into(); } }
-mod q541 { use super::*; fn p(a: GA<u8, U0>) { let _t: (u8, u8, u8, u8, u8, u8, u8, u8, u8, u8, u8, ) = a.into(); } }
-mod q542 { use super::*; fn p(a: GA<u8, U12>) { let _t: (u8, u8, u8, u8, u8, u8, u8, u8, u8, u8, u8, ) = a.into(); } }
-mod q543 { use super::*; fn p(a: GA<u8, U11>) { let _t: (u8, u8, u8, u8, u8, u8, u8, u8, u8, u8, u8, u8, ) = a.into(); } }
-mod q544 { use super::*; fn p(a: GA<u8, U0>) { let _t: (u8, u8, u8, u8, u8, u8, u8, u8, u8, u8, u8, u8, u8, ) = a.into(); } }
-mod q545 { use super::*; fn p(a: GA<u8, U14>) { let _t: (u8, u8, u8, u8, u8, u8, u8, u8, u8, u8, u8, u8, u8, ) = a.into(); } }
-mod q546 { use super::*; fn p(a: GA<u8, U16>, b: GA<u8, U15>) -> bool { a == b } }
-mod q547 { use super::*; fn p(a: GA<u8, U16>, b: GA<u8, U16>) { let _ = a.zip(b, |x, y| x.wrapping_add(y)); } }
-mod q548 { use super::*; fn p(a: GA<u8, U16>) { let (_h, _t): (GA<u8, U16>, GA<u8, U0>) = Split::<u8, U16>::split(a); } }
-mod q549 { use super::*; fn p(x: &[[u8; 17]]) { let _g: &[GA<u8, U16>] = GA::from_chunks(x); } }
-mod q550 { use super::*; fn p(a: GA<u8, U33>) { let _x: [u8; 32] = a.into_array(); } }
-mod q551 { use super::*; fn p(a: GA<u8, U33>) { let (_c, _x): (GA<u8, U33>, u8) = a.pop_back(); } }
-mod q552 { use super::*; fn p(a: GA<u8, U33>) { let _c: GA<u8, U34> = a.append(1u8); } }
-mod q553 { use super::*; fn p(a: GA<u8, U1023>, b: GA<u8, U1022>) -> bool { a == b } }
-mod q554 { use super::*; fn p(a: GA<u8, U1023>, b: GA<u8, U1023>) { let _ = a.zip(b, |x, y| x.wrapping_add(y)); } }
-mod q555 { use super::*; fn p(a: GA<u8, U1023>) { let (_h, _t): (GA<u8, U1023>, GA<u8, U0>) = Split::<u8, U1023>::split(a); } }
-mod q556 { use super::*; fn p(x: &[[u8; 1024]]) { let _g: &[GA<u8, U1023>] = GA::from_chunks(x); } }
-mod q557 { use super::*; fn p(a: GA<u8, P1>) {} }
-mod q558 { use super::*; mod m { use super::*; pub struct Mine; unsafe impl ArrayLength for Mine { type ArrayType<T> = GA<T, U3>; } } fn p() {} }
-mod q559 { use super::*; fn p() { fn need<X: Copy>() {} need::<GA<u8, U0>>(); } }
-mod q560 { use super::*; fn p() { fn need<X: Sync>() {} need::<&'static GA<u8, U0>>(); } }
-mod q561 { use super::*; fn p() { fn need<X: Copy>() {} need::<Box<GA<u8, U0>>>(); } }
-mod q562 { use super::*; fn p() { fn need<X: Sync>() {} need::<GenericArrayIter<u8, U1>>(); } }
-mod q563 { use super::*; fn p() { fn need<X: Copy>() {} need::<&'static GA<u8, U1>>(); } }
-mod q564 { use super::*; fn p() { fn need<X: Sync>() {} need::<GA<u8, U2>>(); } }
-mod q565 { use super::*; fn p() { fn need<X: Copy>() {} need::<GenericArrayIter<u8, U2>>(); } }
-mod q566 { use super::*; fn p() { fn need<X: Sync>() {} need::<Box<GA<u8, U2>>>(); } }
-mod q567 { use super::*; fn p() { fn need<X: Copy>() {} need::<GA<u8, U3>>(); } }
-mod q568 { use super::*; fn p() { fn need<X: Sync>() {} need::<&'static GA<u8, U3>>(); } }
-mod q569 { use super::*; fn p() { fn need<X: Copy>() {} need::<Box<GA<u8, U3>>>(); } }
-mod q570 { use super::*; fn p() { fn need<X: Sync>() {} need::<GenericArrayIter<u8, U6>>(); } }
-mod q571 { use super::*; fn p() { fn need<X: Copy>() {} need::<&'static GA<u8, U6>>(); } }
-mod q572 { use super::*; fn p() { fn need<X: Sync>() {} need::<GA<String, U0>>(); } }
-mod q573 { use super::*; fn p() { fn need<X: Copy>() {} need::<GenericArrayIter<String, U0>>(); } }
-mod q574 { use super::*; fn p() { fn need<X: Sync>() {} need::<Box<GA<String, U0>>>(); } }
-mod q575 { use super::*; fn p() { fn need<X: Copy>() {} need::<GA<String, U1>>(); } }
-mod q576 { use super::*; fn p() { fn need<X: Sync>() {} need::<&'static GA<String, U1>>(); } }
-mod q577 { use super::*; fn p() { fn need<X: Copy>() {} need::<Box<GA<String, U1>>>(); } }
-mod q578 { use super::*; fn p() { fn need<X: Sync>() {} need::<GenericArrayIter<String, U2>>(); } }
-mod q579 { use super::*; fn p() { fn need<X: Copy>() {} need::<&'static GA<String, U2>>(); } }
-mod q580 { use super::*; fn p() { fn need<X: Sync>() {} need::<GA<String, U3>>(); } }
-mod q581 { use super::*; fn p() { fn need<X: Copy>() {} need::<GenericArrayIter<String, U3>>(); } }
-mod q582 { use super::*; fn p() { fn need<X: Sync>() {} need::<Box<GA<String, U3>>>(); } }
-mod q583 { use super::*; fn p() { fn need<X: Copy>() {} need::<GA<String, U6>>(); } }
-mod q584 { use super::*; fn p() { fn need<X: Sync>() {} need::<&'static GA<String, U6>>(); } }
-mod q585 { use super::*; fn p() { fn need<X: Copy>() {} need::<Box<GA<String, U6>>>(); } }
-mod q586 { use super::*; fn p() { fn need<X: Sync>() {} need::<GenericArrayIter<std::rc::Rc<u8>, U0>>(); } }
-mod q587 { use super::*; fn p() { fn need<X: Copy>() {} need::<&'static GA<std::rc::Rc<u8>, U0>>(); } }
-mod q588 { use super::*; fn p() { fn need<X: Sync>() {} need::<GA<std::rc::Rc<u8>, U1>>(); } }
-mod q589 { use super::*; fn p() { fn need<X: Copy>() {} need::<GenericArrayIter<std::rc::Rc<u8>, U1>>(); } }
-mod q590 { use super::*; fn p() { fn need<X: Sync>() {} need::<Box<GA<std::rc::Rc<u8>, U1>>>(); } }
-mod q591 { use super::*; fn p() { fn need<X: Copy>() {} need::<GA<std::rc::Rc<u8>, U2>>(); } }
-mod q592 { use super::*; fn p() { fn need<X: Sync>() {} need::<&'static GA<std::rc::Rc<u8>, U2>>(); } }
-mod q593 { use super::*; fn p() { fn need<X: Copy>() {} need::<Box<GA<std::rc::Rc<u8>, U2>>>(); } }
-mod q594 { use super::*; fn p() { fn need<X: Sync>() {} need::<GenericArrayIter<std::rc::Rc<u8>, U3>>(); } }
-mod q595 { use super::*; fn p() { fn need<X: Copy>() {} need::<&'static GA<std::rc::Rc<u8>, U3>>(); } }
-mod q596 { use super::*; fn p() { fn need<X: Sync>() {} need::<GA<std::rc::Rc<u8>, U6>>(); } }
-mod q597 { use super::*; fn p() { fn need<X: Copy>() {} need::<GenericArrayIter<std::rc::Rc<u8>, U6>>(); } }
-mod q598 { use super::*; fn p() { fn need<X: Sync>() {} need::<Box<GA<std::rc::Rc<u8>, U6>>>(); } }
-mod q599 { use super::*; fn p() { fn need<X: Copy>() {} need::<GA<core::cell::Cell<u8>, U0>>(); } }
-mod q600 { use super::*; fn p() { fn need<X: Sync>() {} need::<&'static GA<core::cell::Cell<u8>, U0>>(); } }
-mod q601 { use super::*; fn p() { fn need<X: Copy>() {} need::<Box<GA<core::cell::Cell<u8>, U0>>>(); } }
-mod q602 { use super::*; fn p() { fn need<X: Sync>() {} need::<GenericArrayIter<core::cell::Cell<u8>, U1>>(); } }
-mod q603 { use super::*; fn p() { fn need<X: Copy>() {} need::<&'static GA<core::cell::Cell<u8>, U1>>(); } }
-mod q604 { use super::*; fn p() { fn need<X: Sync>() {} need::<GA<core::cell::Cell<u8>, U2>>(); } }
-mod q605 { use super::*; fn p() { fn need<X: Copy>() {} need::<GenericArrayIter<core::cell::Cell<u8>, U2>>(); } }
-mod q606 { use super::*; fn p() { fn need<X: Sync>() {} need::<Box<GA<core::cell::Cell<u8>, U2>>>(); } }
-mod q607 { use super::*; fn p() { fn need<X: Copy>() {} need::<GA<core::cell::Cell<u8>, U3>>(); } }
-mod q608 { use super::*; fn p() { fn need<X: Sync>() {} need::<&'static GA<core::cell::Cell<u8>, U3>>(); } }
-mod q609 { use super::*; fn p() { fn need<X: Copy>() {} need::<Box<GA<core::cell::Cell<u8>, U3>>>(); } }
-mod q610 { use super::*; fn p() { fn need<X: Sync>() {} need::<GenericArrayIter<core::cell::Cell<u8>, U6>>(); } }
-mod q611 { use super::*; fn p() { fn need<X: Copy>() {} need::<&'static GA<core::cell::Cell<u8>, U6>>(); } }
-mod q612 { use super::*; fn p() { fn need<X: Sync>() {} need::<GA<*const u8, U0>>(); } }
-mod q613 { use super::*; fn p() { fn need<X: Copy>() {} need::<GenericArrayIter<*const u8, U0>>(); } }
-mod q614 { use super::*; fn p() { fn need<X: Sync>() {} need::<Box<GA<*const u8, U0>>>(); } }
-mod q615 { use super::*; fn p() { fn need<X: Copy>() {} need::<GA<*const u8, U1>>(); } }
-mod q616 { use super::*; fn p() { fn need<X: Sync>() {} need::<&'static GA<*const u8, U1>>(); } }
-mod q617 { use super::*; fn p() { fn need<X: Copy>() {} need::<Box<GA<*const u8, U1>>>(); } }
-mod q618 { use super::*; fn p() { fn need<X: Sync>() {} need::<GenericArrayIter<*const u8, U2>>(); } }
-mod q619 { use super::*; fn p() { fn need<X: Copy>() {} need::<&'static GA<*const u8, U2>>(); } }
-mod q620 { use super::*; fn p() { fn need<X: Sync>() {} need::<GA<*const u8, U3>>(); } }
-mod q621 { use super::*; fn p() { fn need<X: Copy>() {} need::<GenericArrayIter<*const u8, U3>>(); } }
-mod q622 { use super::*; fn p() { fn need<X: Sync>() {} need::<Box<GA<*const u8, U3>>>(); } }
-mod q623 { use super::*; fn p() { fn need<X: Copy>() {} need::<GA<*const u8, U6>>(); } }
-mod q624 { use super::*; fn p() { fn need<X: Sync>() {} need::<&'static GA<*const u8, U6>>(); } }
-mod q625 { use super::*; fn p() { fn need<X: Copy>() {} need::<Box<GA<*const u8, U6>>>(); } }
-mod q626 { use super::*; fn p() { fn need<X: Sync>() {} need::<GenericArrayIter<std::sync::MutexGuard<'static, u8>, U0>>(); } }
-mod q627 { use super::*; fn p() { fn need<X: Copy>() {} need::<&'static GA<std::sync::MutexGuard<'static, u8>, U0>>(); } }
-mod q628 { use super::*; fn p() { fn need<X: Sync>() {} need::<GA<std::sync::MutexGuard<'static, u8>, U1>>(); } }
-mod q629 { use super::*; fn p() { fn need<X: Copy>() {} need::<GenericArrayIter<std::sync::MutexGuard<'static, u8>, U1>>(); } }
-mod q630 { use super::*; fn p() { fn need<X: Sync>() {} need::<Box<GA<std::sync::MutexGuard<'static, u8>, U1>>>(); } }
-mod q631 { use super::*; fn p() { fn need<X: Copy>() {} need::<GA<std::sync::MutexGuard<'static, u8>, U2>>(); } }
-mod q632 { use super::*; fn p() { fn need<X: Sync>() {} need::<&'static GA<std::sync::MutexGuard<'static, u8>, U2>>(); } }
-mod q633 { use super::*; fn p() { fn need<X: Copy>() {} need::<Box<GA<std::sync::MutexGuard<'static, u8>, U2>>>(); } }
-mod q634 { use super::*; fn p() { fn need<X: Sync>() {} need::<GenericArrayIter<std::sync::MutexGuard<'static, u8>, U3>>(); } }
-mod q635 { use super::*; fn p() { fn need<X: Copy>() {} need::<&'static GA<std::sync::MutexGuard<'static, u8>, U3>>(); } }
-mod q636 { use super::*; fn p() { fn need<X: Sync>() {} need::<GA<std::sync::MutexGuard<'static, u8>, U6>>(); } }
-mod q637 { use super::*; fn p() { fn need<X: Copy>() {} need::<GenericArrayIter<std::sync::MutexGuard<'static, u8>, U6>>(); } }
-mod q638 { use super::*; fn p() { fn need<X: Sync>() {} need::<Box<GA<std::sync::MutexGuard<'static, u8>, U6>>>(); } }
+mod q0 { use super::*; fn p(a: &GA<u8, U0>, b: GA<u8, U0>) { let _ = GenericSequence::inverted_zip2(b, a, |x: &u8, y: u8| x.wrapping_add(y)); } }
+mod q1 { use super::*; fn p(a: GA<GA<u8, U0>, U0>) { let _f: GA<u8, U0> = a.flatten(); } }
+mod q2 { use super::*; fn p(a: GA<u8, U0>, b: &mut GA<u8, U1>) { let _ = a.zip(b, |x, y| x.wrapping_add(*y)); } }
+mod q3 { use super::*; fn p(a: GA<u8, U0>, b: GA<u8, U1>) -> core::cmp::Ordering { core::cmp::Ord::cmp(&a, &b) } }
+mod q4 { use super::*; fn p(a: GA<GA<u8, U0>, U1>) { let _f: GA<u8, U1> = a.flatten(); } }
+mod q5 { use super::*; fn p(a: GA<u8, U0>, b: GA<u8, U2>) { let _ = GenericSequence::inverted_zip2(b, a, |x: u8, y: u8| x.wrapping_add(y)); } }
+mod q6 { use super::*; fn p(a: GA<u8, U0>, b: GA<u8, U2>) { let _c: GA<u8, U1> = a.concat(b); } }
+mod q7 { use super::*; fn p(a: &GA<GA<u8, U0>, U2>) { let _f: &GA<u8, U1> = a.flatten(); } }
+mod q8 { use super::*; fn p(a: GA<u8, U0>, b: GA<u8, U3>) { let _ = GenericSequence::inverted_zip(b, a, |x: u8, y: u8| x.wrapping_add(y)); } }
+mod q9 { use super::*; fn p(a: GA<u8, U0>, b: GA<u8, U3>) { let _c: GA<u8, U0> = a.concat(b); } }
+mod q10 { use super::*; fn p(a: GA<GA<u8, U0>, U3>) { let _f: GA<u8, U1> = a.flatten(); } }
+mod q11 { use super::*; fn p(a: GA<u8, U0>, b: &mut GA<u8, U4>) { let _ = a.zip(b, |x, y| x.wrapping_add(*y)); } }
+mod q12 { use super::*; fn p(a: GA<u8, U0>, b: GA<u8, U4>) -> core::cmp::Ordering { core::cmp::Ord::cmp(&a, &b) } }
+mod q13 { use super::*; fn p(a: &GA<GA<u8, U0>, U4>) { let _f: &GA<u8, U0> = a.flatten(); } }
+mod q14 { use super::*; fn p(a: &GA<u8, U0>, b: &GA<u8, U5>) { let _ = a.zip(b, |x, y| x.wrapping_add(*y)); } }
+mod q15 { use super::*; fn p(a: GA<u8, U0>, b: GA<u8, U5>) -> bool { a < b } }
+mod q16 { use super::*; fn p(a: GA<GA<u8, U0>, U5>) { let _f: GA<u8, U0> = a.flatten(); } }
+mod q17 { use super::*; fn p(a: GA<u8, U0>, b: GA<u8, U6>) { let _ = a.zip(b, |x, y| x.wrapping_add(y)); } }
+mod q18 { use super::*; fn p(a: GA<u8, U0>, b: GA<u8, U6>) -> bool { a == b } }
+mod q19 { use super::*; fn p(a: GA<u8, U0>, b: GA<u8, U6>) { let _c: GA<u8, U7> = a.concat(b); } }
+mod q20 { use super::*; fn p(a: &GA<GA<u8, U0>, U6>) { let _f: &GA<u8, U6> = a.flatten(); } }
+mod q21 { use super::*; fn p(a: &GA<u8, U0>) { let (_h, _t): (&GA<u8, U1>, &GA<u8, U0>) = Split::<u8, U1>::split(a); } }
+mod q22 { use super::*; fn p(a: &GA<u8, U0>) { let (_h, _t): (&GA<u8, U2>, &GA<u8, U1>) = Split::<u8, U2>::split(a); } }
+mod q23 { use super::*; fn p(a: &GA<u8, U0>) { let (_h, _t): (&GA<u8, U4>, &GA<u8, U0>) = Split::<u8, U4>::split(a); } }
+mod q24 { use super::*; fn p(a: &GA<u8, U0>) { let (_h, _t): (&GA<u8, U5>, &GA<u8, U1>) = Split::<u8, U5>::split(a); } }
+mod q25 { use super::*; fn p(a: &GA<u8, U0>) { let (_h, _t): (&GA<u8, U7>, &GA<u8, U0>) = Split::<u8, U7>::split(a); } }
+mod q26 { use super::*; fn p(a: GA<u8, U0>) { let (_x, _c): (u8, GA<u8, U0>) = a.pop_front(); } }
+mod q27 { use super::*; fn p(a: GA<u8, U0>, b: GA<u8, U0>) { let _z: GA<u16, U0> = a.zip(b, |x, y| x as u16 + y as u16); } }
+mod q28 { use super::*; fn p() { let _g = GA::<u8, U0>::from_array([0u8; 0]); } }
+mod q29 { use super::*; fn p(x: &mut [u8; 0]) { let _g: &mut GA<u8, U0> = x.into(); } }
+mod q30 { use super::*; fn p(x: &mut [GA<u8, U0>]) { let _g = GA::<u8, U0>::into_chunks_mut::<0>(x); } }
+mod q31 { use super::*; fn p(a: GA<u8, U0>) { let (_x, _c): (u8, GA<u8, U1>) = a.swap_remove(0); } }
+mod q32 { use super::*; fn p() { let _a: GA<u8, U1> = arr![7u8; 0]; } }
+mod q33 { use super::*; fn p() { let _g: GA<u8, U0> = [0u8; 1].into(); } }
+mod q34 { use super::*; fn p(x: &mut [[u8; 1]]) { let _g: &mut [GA<u8, U0>] = GA::from_chunks_mut(x); } }
+mod q35 { use super::*; fn p(a: GA<u8, U0>) { let _c: GA<u8, U2> = a.prepend(1u8); } }
+mod q36 { use super::*; fn p(a: &GA<u8, U0>) { let _m: GA<u16, U2> = a.map(|x| *x as u16); } }
+mod q37 { use super::*; fn p(a: GA<u8, U0>) { let _x: [u8; 2] = a.into_array(); } }
+mod q38 { use super::*; fn p(a: &mut GA<u8, U0>) { let _r: &mut [u8; 2] = a.as_mut(); } }
+mod q39 { use super::*; fn p(x: &[GA<u8, U0>]) { let _g = GA::<u8, U0>::into_chunks::<2>(x); } }
+mod q40 { use super::*; fn p(a: GA<u8, U0>) { let (_x, _c): (u8, GA<u8, U3>) = a.pop_front(); } }
+mod q41 { use super::*; fn p(a: GA<u8, U0>, b: GA<u8, U0>) { let _z: GA<u16, U3> = a.zip(b, |x, y| x as u16 + y as u16); } }
+mod q42 { use super::*; fn p() { let _g = GA::<u8, U0>::from_array([0u8; 3]); } }
+mod q43 { use super::*; fn p(x: &mut [u8; 3]) { let _g: &mut GA<u8, U0> = x.into(); } }
+mod q44 { use super::*; fn p(x: &mut [GA<u8, U0>]) { let _g = GA::<u8, U0>::into_chunks_mut::<3>(x); } }
+mod q45 { use super::*; fn p(a: GA<u8, U0>) { let (_x, _c): (u8, GA<u8, U4>) = a.swap_remove(0); } }
+mod q46 { use super::*; fn p() { let _a: GA<u8, U4> = arr![7u8; 0]; } }
+mod q47 { use super::*; fn p() { let _g: GA<u8, U0> = [0u8; 4].into(); } }
+mod q48 { use super::*; fn p(x: &mut [[u8; 4]]) { let _g: &mut [GA<u8, U0>] = GA::from_chunks_mut(x); } }
+mod q49 { use super::*; fn p(a: GA<u8, U0>) { let _c: GA<u8, U5> = a.prepend(1u8); } }
+mod q50 { use super::*; fn p(a: &GA<u8, U0>) { let _m: GA<u16, U5> = a.map(|x| *x as u16); } }
+mod q51 { use super::*; fn p(a: GA<u8, U0>) { let _x: [u8; 5] = a.into_array(); } }
+mod q52 { use super::*; fn p(a: &mut GA<u8, U0>) { let _r: &mut [u8; 5] = a.as_mut(); } }
+mod q53 { use super::*; fn p(x: &[GA<u8, U0>]) { let _g = GA::<u8, U0>::into_chunks::<5>(x); } }
+mod q54 { use super::*; fn p(a: GA<u8, U0>) { let (_x, _c): (u8, GA<u8, U6>) = a.pop_front(); } }
+mod q55 { use super::*; fn p(a: GA<u8, U0>, b: GA<u8, U0>) { let _z: GA<u16, U6> = a.zip(b, |x, y| x as u16 + y as u16); } }
+mod q56 { use super::*; fn p() { let _g = GA::<u8, U0>::from_array([0u8; 6]); } }
+mod q57 { use super::*; fn p(x: &mut [u8; 6]) { let _g: &mut GA<u8, U0> = x.into(); } }
+mod q58 { use super::*; fn p(x: &mut [GA<u8, U0>]) { let _g = GA::<u8, U0>::into_chunks_mut::<6>(x); } }
+mod q59 { use super::*; fn p(a: GA<u8, U0>) { let (_x, _c): (u8, GA<u8, U7>) = a.swap_remove(0); } }
+mod q60 { use super::*; fn p() { let _a: GA<u8, U7> = arr![7u8; 0]; } }
+mod q61 { use super::*; fn p() { let _g: GA<u8, U0> = [0u8; 7].into(); } }
+mod q62 { use super::*; fn p(x: &mut [[u8; 7]]) { let _g: &mut [GA<u8, U0>] = GA::from_chunks_mut(x); } }
+mod q63 { use super::*; fn p(a: GA<u8, U0>) { let _c: GA<u8, U8> = a.prepend(1u8); } }
+mod q64 { use super::*; fn p(a: &GA<u8, U0>) { let _m: GA<u16, U8> = a.map(|x| *x as u16); } }
+mod q65 { use super::*; fn p(a: GA<u8, U0>) { let _x: [u8; 8] = a.into_array(); } }
+mod q66 { use super::*; fn p(a: &mut GA<u8, U0>) { let _r: &mut [u8; 8] = a.as_mut(); } }
+mod q67 { use super::*; fn p(x: &[GA<u8, U0>]) { let _g = GA::<u8, U0>::into_chunks::<8>(x); } }
+mod q68 { use super::*; fn p(a: GA<u8, U0>) { let _u: GA<GA<u8, U0>, U3> = a.unflatten(); } }
+mod q69 { use super::*; fn p(a: GA<u8, U0>) { let _u: GA<GA<u8, U1>, U1> = a.unflatten(); } }
+mod q70 { use super::*; fn p(a: GA<u8, U0>) { let _u: GA<GA<u8, U1>, U7> = a.unflatten(); } }
+mod q71 { use super::*; fn p(a: GA<u8, U0>) { let _u: GA<GA<u8, U2>, U5> = a.unflatten(); } }
+mod q72 { use super::*; fn p(a: GA<u8, U0>) { let _u: GA<GA<u8, U3>, U3> = a.unflatten(); } }
+mod q73 { use super::*; fn p(a: &GA<u8, U1>, b: &GA<u8, U0>) { let _ = a.zip(b, |x, y| x.wrapping_add(*y)); } }
+mod q74 { use super::*; fn p(a: GA<u8, U1>, b: GA<u8, U0>) -> bool { a < b } }
+mod q75 { use super::*; fn p(a: &GA<GA<u8, U1>, U0>) { let _f: &GA<u8, U0> = a.flatten(); } }
+mod q76 { use super::*; fn p(a: GA<u8, U1>, b: GA<u8, U1>) { let _ = GenericSequence::inverted_zip(b, a, |x: u8, y: u8| x.wrapping_add(y)); } }
+mod q77 { use super::*; fn p(a: GA<u8, U1>, b: GA<u8, U1>) { let _c: GA<u8, U0> = a.concat(b); } }
+mod q78 { use super::*; fn p(a: GA<GA<u8, U1>, U1>) { let _f: GA<u8, U1> = a.flatten(); } }
+mod q79 { use super::*; fn p(a: GA<u8, U1>, b: &mut GA<u8, U2>) { let _ = a.zip(b, |x, y| x.wrapping_add(*y)); } }
+mod q80 { use super::*; fn p(a: GA<u8, U1>, b: GA<u8, U2>) -> core::cmp::Ordering { core::cmp::Ord::cmp(&a, &b) } }
+mod q81 { use super::*; fn p(a: &GA<GA<u8, U1>, U2>) { let _f: &GA<u8, U1> = a.flatten(); } }
+mod q82 { use super::*; fn p(a: &GA<u8, U1>, b: &GA<u8, U3>) { let _ = a.zip(b, |x, y| x.wrapping_add(*y)); } }
+mod q83 { use super::*; fn p(a: GA<u8, U1>, b: GA<u8, U3>) -> bool { a < b } }
+mod q84 { use super::*; fn p(a: GA<GA<u8, U1>, U3>) { let _f: GA<u8, U2> = a.flatten(); } }
+mod q85 { use super::*; fn p(a: GA<u8, U1>, b: GA<u8, U4>) { let _ = a.zip(b, |x, y| x.wrapping_add(y)); } }
+mod q86 { use super::*; fn p(a: GA<u8, U1>, b: GA<u8, U4>) -> bool { a == b } }
+mod q87 { use super::*; fn p(a: GA<u8, U1>, b: GA<u8, U4>) { let _c: GA<u8, U6> = a.concat(b); } }
+mod q88 { use super::*; fn p(a: &GA<GA<u8, U1>, U4>) { let _f: &GA<u8, U5> = a.flatten(); } }
+mod q89 { use super::*; fn p(a: &GA<u8, U1>, b: GA<u8, U5>) { let _ = GenericSequence::inverted_zip2(b, a, |x: &u8, y: u8| x.wrapping_add(y)); } }
+mod q90 { use super::*; fn p(a: GA<u8, U1>, b: GA<u8, U5>) { let _c: GA<u8, U6> = a.concat(b); } }
+mod q91 { use super::*; fn p(a: GA<GA<u8, U1>, U5>) { let _f: GA<u8, U6> = a.flatten(); } }
+mod q92 { use super::*; fn p(a: GA<u8, U1>, b: GA<u8, U6>) { let _ = GenericSequence::inverted_zip2(b, a, |x: u8, y: u8| x.wrapping_add(y)); } }
+mod q93 { use super::*; fn p(a: GA<u8, U1>, b: GA<u8, U6>) { let _c: GA<u8, U6> = a.concat(b); } }
+mod q94 { use super::*; fn p(a: &GA<GA<u8, U1>, U6>) { let _f: &GA<u8, U6> = a.flatten(); } }
+mod q95 { use super::*; fn p(a: &GA<u8, U1>) { let (_h, _t): (&GA<u8, U0>, &GA<u8, U1>) = Split::<u8, U0>::split(a); } }
+mod q96 { use super::*; fn p(a: &GA<u8, U1>) { let (_h, _t): (&GA<u8, U1>, &GA<u8, U1>) = Split::<u8, U1>::split(a); } }
+mod q97 { use super::*; fn p(a: &GA<u8, U1>) { let (_h, _t): (&GA<u8, U3>, &GA<u8, U0>) = Split::<u8, U3>::split(a); } }
+mod q98 { use super::*; fn p(a: &GA<u8, U1>) { let (_h, _t): (&GA<u8, U4>, &GA<u8, U1>) = Split::<u8, U4>::split(a); } }
+mod q99 { use super::*; fn p(a: &GA<u8, U1>) { let (_h, _t): (&GA<u8, U6>, &GA<u8, U0>) = Split::<u8, U6>::split(a); } }
+mod q100 { use super::*; fn p(a: &GA<u8, U1>) { let (_h, _t): (&GA<u8, U7>, &GA<u8, U1>) = Split::<u8, U7>::split(a); } }
+mod q101 { use super::*; fn p(a: GA<u8, U1>) { let (_x, _c): (u8, GA<u8, U0>) = a.swap_remove(0); } }
+mod q102 { use super::*; fn p() { let _a: GA<u8, U0> = arr![7u8; 1]; } }
+mod q103 { use super::*; fn p() { let _g: GA<u8, U1> = [0u8; 0].into(); } }
+mod q104 { use super::*; fn p(x: &mut [[u8; 0]]) { let _g: &mut [GA<u8, U1>] = GA::from_chunks_mut(x); } }
+mod q105 { use super::*; fn p(a: GA<u8, U1>) { let _c: GA<u8, U1> = a.prepend(1u8); } }
+mod q106 { use super::*; fn p(a: &GA<u8, U1>) { let _m: GA<u16, U1> = a.map(|x| *x as u16); } }
+mod q107 { use super::*; fn p(a: GA<u8, U1>) { let _x: [u8; 1] = a.into_array(); } }
+mod q108 { use super::*; fn p(a: &mut GA<u8, U1>) { let _r: &mut [u8; 1] = a.as_mut(); } }
+mod q109 { use super::*; fn p(x: &[GA<u8, U1>]) { let _g = GA::<u8, U1>::into_chunks::<1>(x); } }
+mod q110 { use super::*; fn p(a: GA<u8, U1>) { let (_x, _c): (u8, GA<u8, U2>) = a.pop_front(); } }
+mod q111 { use super::*; fn p(a: GA<u8, U1>, b: GA<u8, U1>) { let _z: GA<u16, U2> = a.zip(b, |x, y| x as u16 + y as u16); } }
+mod q112 { use super::*; fn p() { let _g = GA::<u8, U1>::from_array([0u8; 2]); } }
+mod q113 { use super::*; fn p(x: &mut [u8; 2]) { let _g: &mut GA<u8, U1> = x.into(); } }
+mod q114 { use super::*; fn p(x: &mut [GA<u8, U1>]) { let _g = GA::<u8, U1>::into_chunks_mut::<2>(x); } }
+mod q115 { use super::*; fn p(a: GA<u8, U1>) { let (_x, _c): (u8, GA<u8, U3>) = a.swap_remove(0); } }
+mod q116 { use super::*; fn p() { let _a: GA<u8, U3> = arr![7u8; 1]; } }
+mod q117 { use super::*; fn p() { let _g: GA<u8, U1> = [0u8; 3].into(); } }
+mod q118 { use super::*; fn p(x: &mut [[u8; 3]]) { let _g: &mut [GA<u8, U1>] = GA::from_chunks_mut(x); } }
+mod q119 { use super::*; fn p(a: GA<u8, U1>) { let _c: GA<u8, U4> = a.prepend(1u8); } }
+mod q120 { use super::*; fn p(a: &GA<u8, U1>) { let _m: GA<u16, U4> = a.map(|x| *x as u16); } }
+mod q121 { use super::*; fn p(a: GA<u8, U1>) { let _x: [u8; 4] = a.into_array(); } }
+mod q122 { use super::*; fn p(a: &mut GA<u8, U1>) { let _r: &mut [u8; 4] = a.as_mut(); } }
+mod q123 { use super::*; fn p(x: &[GA<u8, U1>]) { let _g = GA::<u8, U1>::into_chunks::<4>(x); } }
+mod q124 { use super::*; fn p(a: GA<u8, U1>) { let (_x, _c): (u8, GA<u8, U5>) = a.pop_front(); } }
+mod q125 { use super::*; fn p(a: GA<u8, U1>, b: GA<u8, U1>) { let _z: GA<u16, U5> = a.zip(b, |x, y| x as u16 + y as u16); } }
+mod q126 { use super::*; fn p() { let _g = GA::<u8, U1>::from_array([0u8; 5]); } }
+mod q127 { use super::*; fn p(x: &mut [u8; 5]) { let _g: &mut GA<u8, U1> = x.into(); } }
+mod q128 { use super::*; fn p(x: &mut [GA<u8, U1>]) { let _g = GA::<u8, U1>::into_chunks_mut::<5>(x); } }
+mod q129 { use super::*; fn p(a: GA<u8, U1>) { let (_x, _c): (u8, GA<u8, U6>) = a.swap_remove(0); } }
+mod q130 { use super::*; fn p() { let _a: GA<u8, U6> = arr![7u8; 1]; } }
+mod q131 { use super::*; fn p() { let _g: GA<u8, U1> = [0u8; 6].into(); } }
+mod q132 { use super::*; fn p(x: &mut [[u8; 6]]) { let _g: &mut [GA<u8, U1>] = GA::from_chunks_mut(x); } }
+mod q133 { use super::*; fn p(a: GA<u8, U1>) { let _c: GA<u8, U7> = a.prepend(1u8); } }
+mod q134 { use super::*; fn p(a: &GA<u8, U1>) { let _m: GA<u16, U7> = a.map(|x| *x as u16); } }
+mod q135 { use super::*; fn p(a: GA<u8, U1>) { let _x: [u8; 7] = a.into_array(); } }
+mod q136 { use super::*; fn p(a: &mut GA<u8, U1>) { let _r: &mut [u8; 7] = a.as_mut(); } }
+mod q137 { use super::*; fn p(x: &[GA<u8, U1>]) { let _g = GA::<u8, U1>::into_chunks::<7>(x); } }
+mod q138 { use super::*; fn p(a: GA<u8, U1>) { let (_x, _c): (u8, GA<u8, U8>) = a.pop_front(); } }
+mod q139 { use super::*; fn p(a: GA<u8, U1>, b: GA<u8, U1>) { let _z: GA<u16, U8> = a.zip(b, |x, y| x as u16 + y as u16); } }
+mod q140 { use super::*; fn p() { let _g = GA::<u8, U1>::from_array([0u8; 8]); } }
+mod q141 { use super::*; fn p(x: &mut [u8; 8]) { let _g: &mut GA<u8, U1> = x.into(); } }
+mod q142 { use super::*; fn p(x: &mut [GA<u8, U1>]) { let _g = GA::<u8, U1>::into_chunks_mut::<8>(x); } }
+mod q143 { use super::*; fn p(a: GA<u8, U1>) { let _u: GA<GA<u8, U0>, U5> = a.unflatten(); } }
+mod q144 { use super::*; fn p(a: GA<u8, U1>) { let _u: GA<GA<u8, U1>, U3> = a.unflatten(); } }
+mod q145 { use super::*; fn p(a: GA<u8, U1>) { let _u: GA<GA<u8, U2>, U1> = a.unflatten(); } }
+mod q146 { use super::*; fn p(a: GA<u8, U1>) { let _u: GA<GA<u8, U2>, U7> = a.unflatten(); } }
+mod q147 { use super::*; fn p(a: GA<u8, U1>) { let _u: GA<GA<u8, U3>, U5> = a.unflatten(); } }
+mod q148 { use super::*; fn p(a: GA<u8, U2>, b: GA<u8, U0>) { let _ = GenericSequence::inverted_zip(b, a, |x: u8, y: u8| x.wrapping_add(y)); } }
+mod q149 { use super::*; fn p(a: GA<u8, U2>, b: GA<u8, U0>) { let _c: GA<u8, U0> = a.concat(b); } }
+mod q150 { use super::*; fn p(a: GA<GA<u8, U2>, U0>) { let _f: GA<u8, U1> = a.flatten(); } }
+mod q151 { use super::*; fn p(a: GA<u8, U2>, b: &mut GA<u8, U1>) { let _ = a.zip(b, |x, y| x.wrapping_add(*y)); } }
+mod q152 { use super::*; fn p(a: GA<u8, U2>, b: GA<u8, U1>) -> core::cmp::Ordering { core::cmp::Ord::cmp(&a, &b) } }
+mod q153 { use super::*; fn p(a: &GA<GA<u8, U2>, U1>) { let _f: &GA<u8, U1> = a.flatten(); } }
+mod q154 { use super::*; fn p(a: &GA<u8, U2>, b: &GA<u8, U2>) { let _ = a.zip(b, |x, y| x.wrapping_add(*y)); } }
+mod q155 { use super::*; fn p(a: GA<u8, U2>, b: GA<u8, U2>) -> bool { a < b } }
+mod q156 { use super::*; fn p(a: GA<GA<u8, U2>, U2>) { let _f: GA<u8, U3> = a.flatten(); } }
+mod q157 { use super::*; fn p(a: GA<u8, U2>, b: GA<u8, U3>) { let _ = a.zip(b, |x, y| x.wrapping_add(y)); } }
+mod q158 { use super::*; fn p(a: GA<u8, U2>, b: GA<u8, U3>) -> bool { a == b } }
+mod q159 { use super::*; fn p(a: GA<u8, U2>, b: GA<u8, U3>) { let _c: GA<u8, U6> = a.concat(b); } }
+mod q160 { use super::*; fn p(a: &GA<GA<u8, U2>, U3>) { let _f: &GA<u8, U7> = a.flatten(); } }
+mod q161 { use super::*; fn p(a: &GA<u8, U2>, b: GA<u8, U4>) { let _ = GenericSequence::inverted_zip2(b, a, |x: &u8, y: u8| x.wrapping_add(y)); } }
+mod q162 { use super::*; fn p(a: GA<u8, U2>, b: GA<u8, U4>) { let _c: GA<u8, U6> = a.concat(b); } }
+mod q163 { use super::*; fn p(a: GA<GA<u8, U2>, U4>) { let _f: GA<u8, U8> = a.flatten(); } }
+mod q164 { use super::*; fn p(a: GA<u8, U2>, b: &mut GA<u8, U5>) { let _ = a.zip(b, |x, y| x.wrapping_add(*y)); } }
+mod q165 { use super::*; fn p(a: GA<u8, U2>, b: GA<u8, U5>) -> core::cmp::Ordering { core::cmp::Ord::cmp(&a, &b) } }
+mod q166 { use super::*; fn p(a: &GA<GA<u8, U2>, U5>) { let _f: &GA<u8, U7> = a.flatten(); } }
+mod q167 { use super::*; fn p(a: &GA<GA<u8, U2>, U5>) { let _f: &GA<u8, U11> = a.flatten(); } }
+mod q168 { use super::*; fn p(a: &GA<u8, U2>, b: GA<u8, U6>) { let _ = GenericSequence::inverted_zip2(b, a, |x: &u8, y: u8| x.wrapping_add(y)); } }
+mod q169 { use super::*; fn p(a: GA<u8, U2>, b: GA<u8, U6>) { let _c: GA<u8, U8> = a.concat(b); } }
+mod q170 { use super::*; fn p(a: GA<GA<u8, U2>, U6>) { let _f: GA<u8, U12> = a.flatten(); } }
+mod q171 { use super::*; fn p(a: GA<u8, U2>) { let (_h, _t): (GA<u8, U0>, GA<u8, U2>) = Split::<u8, U0>::split(a); } }
+mod q172 { use super::*; fn p(a: GA<u8, U2>) { let (_h, _t): (GA<u8, U1>, GA<u8, U1>) = Split::<u8, U1>::split(a); } }
+mod q173 { use super::*; fn p(a: GA<u8, U2>) { let (_h, _t): (GA<u8, U2>, GA<u8, U1>) = Split::<u8, U2>::split(a); } }
+mod q174 { use super::*; fn p(a: GA<u8, U2>) { let (_h, _t): (GA<u8, U3>, GA<u8, U1>) = Split::<u8, U3>::split(a); } }
+mod q175 { use super::*; fn p(a: GA<u8, U2>) { let (_h, _t): (GA<u8, U4>, GA<u8, U1>) = Split::<u8, U4>::split(a); } }
+mod q176 { use super::*; fn p(a: GA<u8, U2>) { let (_h, _t): (GA<u8, U5>, GA<u8, U1>) = Split::<u8, U5>::split(a); } }
+mod q177 { use super::*; fn p(a: GA<u8, U2>) { let (_h, _t): (GA<u8, U6>, GA<u8, U1>) = Split::<u8, U6>::split(a); } }
+mod q178 { use super::*; fn p(a: GA<u8, U2>) { let (_h, _t): (GA<u8, U7>, GA<u8, U1>) = Split::<u8, U7>::split(a); } }
+mod q179 { use super::*; fn p(a: GA<u8, U2>) { let (_c, _x): (GA<u8, U0>, u8) = a.pop_back(); } }
+mod q180 { use super::*; fn p() { let _g: GA<u8, U0> = GA::<u8, U2>::generate(|i| i as u8); } }
+mod q181 { use super::*; fn p(a: GA<u8, U2>) { let _x = a.into_array::<0>(); } }
+mod q182 { use super::*; fn p(x: &[u8; 0]) { let _g: &GA<u8, U2> = x.into(); } }
+mod q183 { use super::*; fn p(x: &mut [GA<u8, U2>]) { let _g: &mut [[u8; 0]] = GA::into_chunks_mut(x); } }
+mod q184 { use super::*; fn p(a: GA<u8, U2>) { let (_x, _c): (u8, GA<u8, U1>) = a.remove(0); } }
+mod q185 { use super::*; fn p() { let _a: GA<u8, U1> = arr![7u8; U2]; } }
+mod q186 { use super::*; fn p(a: GA<u8, U2>) { let _x: [u8; 1] = a.into(); } }
+mod q187 { use super::*; fn p(x: &[[u8; 1]]) { let _g: &[GA<u8, U2>] = GA::from_chunks(x); } }
+mod q188 { use super::*; fn p(a: GA<u8, U2>) { let _c: GA<u8, U2> = a.append(1u8); } }
+mod q189 { use super::*; fn p(a: GA<u8, U2>) { let _m: GA<u16, U2> = a.map(|x| x as u16); } }
+mod q190 { use super::*; fn p() { let _a: GA<u8, U2> = arr![1u8, 1u8]; } }
+mod q191 { use super::*; fn p(a: &GA<u8, U2>) { let _r: &[u8; 2] = a.as_ref(); } }
+mod q192 { use super::*; fn p(x: &[GA<u8, U2>]) { let _g: &[[u8; 2]] = GA::into_chunks(x); } }
+mod q193 { use super::*; fn p(a: GA<u8, U2>) { let (_c, _x): (GA<u8, U3>, u8) = a.pop_back(); } }
+mod q194 { use super::*; fn p() { let _g: GA<u8, U3> = GA::<u8, U2>::generate(|i| i as u8); } }
+mod q195 { use super::*; fn p(a: GA<u8, U2>) { let _x = a.into_array::<3>(); } }
+mod q196 { use super::*; fn p(x: &[u8; 3]) { let _g: &GA<u8, U2> = x.into(); } }
+mod q197 { use super::*; fn p(x: &mut [GA<u8, U2>]) { let _g: &mut [[u8; 3]] = GA::into_chunks_mut(x); } }
+mod q198 { use super::*; fn p(a: GA<u8, U2>) { let (_x, _c): (u8, GA<u8, U4>) = a.remove(0); } }
+mod q199 { use super::*; fn p() { let _a: GA<u8, U4> = arr![7u8; U2]; } }
+mod q200 { use super::*; fn p(a: GA<u8, U2>) { let _x: [u8; 4] = a.into(); } }
+mod q201 { use super::*; fn p(x: &[[u8; 4]]) { let _g: &[GA<u8, U2>] = GA::from_chunks(x); } }
+mod q202 { use super::*; fn p(a: GA<u8, U2>) { let _c: GA<u8, U5> = a.append(1u8); } }
+mod q203 { use super::*; fn p(a: GA<u8, U2>) { let _m: GA<u16, U5> = a.map(|x| x as u16); } }
+mod q204 { use super::*; fn p() { let _a: GA<u8, U5> = arr![1u8, 1u8]; } }
+mod q205 { use super::*; fn p(a: &GA<u8, U2>) { let _r: &[u8; 5] = a.as_ref(); } }
+mod q206 { use super::*; fn p(x: &[GA<u8, U2>]) { let _g: &[[u8; 5]] = GA::into_chunks(x); } }
+mod q207 { use super::*; fn p(a: GA<u8, U2>) { let (_c, _x): (GA<u8, U6>, u8) = a.pop_back(); } }
+mod q208 { use super::*; fn p() { let _g: GA<u8, U6> = GA::<u8, U2>::generate(|i| i as u8); } }
+mod q209 { use super::*; fn p(a: GA<u8, U2>) { let _x = a.into_array::<6>(); } }
+mod q210 { use super::*; fn p(x: &[u8; 6]) { let _g: &GA<u8, U2> = x.into(); } }
+mod q211 { use super::*; fn p(x: &mut [GA<u8, U2>]) { let _g: &mut [[u8; 6]] = GA::into_chunks_mut(x); } }
+mod q212 { use super::*; fn p(a: GA<u8, U2>) { let (_x, _c): (u8, GA<u8, U7>) = a.remove(0); } }
+mod q213 { use super::*; fn p() { let _a: GA<u8, U7> = arr![7u8; U2]; } }
+mod q214 { use super::*; fn p(a: GA<u8, U2>) { let _x: [u8; 7] = a.into(); } }
+mod q215 { use super::*; fn p(x: &[[u8; 7]]) { let _g: &[GA<u8, U2>] = GA::from_chunks(x); } }
+mod q216 { use super::*; fn p(a: GA<u8, U2>) { let _c: GA<u8, U8> = a.append(1u8); } }
+mod q217 { use super::*; fn p(a: GA<u8, U2>) { let _m: GA<u16, U8> = a.map(|x| x as u16); } }
+mod q218 { use super::*; fn p() { let _a: GA<u8, U8> = arr![1u8, 1u8]; } }
+mod q219 { use super::*; fn p(a: &GA<u8, U2>) { let _r: &[u8; 8] = a.as_ref(); } }
+mod q220 { use super::*; fn p(x: &[GA<u8, U2>]) { let _g: &[[u8; 8]] = GA::into_chunks(x); } }
+mod q221 { use super::*; fn p(a: GA<u8, U2>) { let _u: GA<GA<u8, U0>, U2> = a.unflatten(); } }
+mod q222 { use super::*; fn p(a: GA<u8, U2>) { let _u: GA<GA<u8, U1>, U0> = a.unflatten(); } }
+mod q223 { use super::*; fn p(a: GA<u8, U2>) { let _u: GA<GA<u8, U1>, U6> = a.unflatten(); } }
+mod q224 { use super::*; fn p(a: GA<u8, U2>) { let _u: GA<GA<u8, U2>, U4> = a.unflatten(); } }
+mod q225 { use super::*; fn p(a: GA<u8, U2>) { let _u: GA<GA<u8, U3>, U2> = a.unflatten(); } }
+mod q226 { use super::*; fn p(a: GA<u8, U3>, b: GA<u8, U0>) { let _ = a.zip(b, |x, y| x.wrapping_add(y)); } }
+mod q227 { use super::*; fn p(a: GA<u8, U3>, b: GA<u8, U0>) -> bool { a == b } }
+mod q228 { use super::*; fn p(a: GA<u8, U3>, b: GA<u8, U0>) { let _c: GA<u8, U4> = a.concat(b); } }
+mod q229 { use super::*; fn p(a: &GA<GA<u8, U3>, U0>) { let _f: &GA<u8, U3> = a.flatten(); } }
+mod q230 { use super::*; fn p(a: &GA<u8, U3>, b: GA<u8, U1>) { let _ = GenericSequence::inverted_zip2(b, a, |x: &u8, y: u8| x.wrapping_add(y)); } }
+mod q231 { use super::*; fn p(a: GA<u8, U3>, b: GA<u8, U1>) { let _c: GA<u8, U4> = a.concat(b); } }
+mod q232 { use super::*; fn p(a: GA<GA<u8, U3>, U1>) { let _f: GA<u8, U4> = a.flatten(); } }
+mod q233 { use super::*; fn p(a: GA<u8, U3>, b: GA<u8, U2>) { let _ = GenericSequence::inverted_zip2(b, a, |x: u8, y: u8| x.wrapping_add(y)); } }
+mod q234 { use super::*; fn p(a: GA<u8, U3>, b: GA<u8, U2>) { let _c: GA<u8, U4> = a.concat(b); } }
+mod q235 { use super::*; fn p(a: &GA<GA<u8, U3>, U2>) { let _f: &GA<u8, U6> = a.flatten(); } }
+mod q236 { use super::*; fn p(a: GA<u8, U3>, b: GA<u8, U3>) { let _ = GenericSequence::inverted_zip(b, a, |x: u8, y: u8| x.wrapping_add(y)); } }
+mod q237 { use super::*; fn p(a: GA<u8, U3>, b: GA<u8, U3>) { let _c: GA<u8, U0> = a.concat(b); } }
+mod q238 { use super::*; fn p(a: GA<GA<u8, U3>, U3>) { let _f: GA<u8, U8> = a.flatten(); } }
+mod q239 { use super::*; fn p(a: GA<u8, U3>, b: GA<u8, U4>) { let _ = a.zip(b, |x, y| x.wrapping_add(y)); } }
+mod q240 { use super::*; fn p(a: GA<u8, U3>, b: GA<u8, U4>) -> bool { a == b } }
+mod q241 { use super::*; fn p(a: GA<u8, U3>, b: GA<u8, U4>) { let _c: GA<u8, U8> = a.concat(b); } }
+mod q242 { use super::*; fn p(a: &GA<GA<u8, U3>, U4>) { let _f: &GA<u8, U12> = a.flatten(); } }
+mod q243 { use super::*; fn p(a: GA<u8, U3>, b: GA<u8, U5>) { let _ = GenericSequence::inverted_zip(b, a, |x: u8, y: u8| x.wrapping_add(y)); } }
+mod q244 { use super::*; fn p(a: GA<u8, U3>, b: GA<u8, U5>) { let _c: GA<u8, U0> = a.concat(b); } }
+mod q245 { use super::*; fn p(a: GA<GA<u8, U3>, U5>) { let _f: GA<u8, U14> = a.flatten(); } }
+mod q246 { use super::*; fn p(a: GA<u8, U3>, b: GA<u8, U6>) { let _ = a.zip(b, |x, y| x.wrapping_add(y)); } }
+mod q247 { use super::*; fn p(a: GA<u8, U3>, b: GA<u8, U6>) -> bool { a == b } }
+mod q248 { use super::*; fn p(a: GA<u8, U3>, b: GA<u8, U6>) { let _c: GA<u8, U10> = a.concat(b); } }
+mod q249 { use super::*; fn p(a: &GA<GA<u8, U3>, U6>) { let _f: &GA<u8, U18> = a.flatten(); } }
+mod q250 { use super::*; fn p(a: &GA<u8, U3>) { let (_h, _t): (&GA<u8, U0>, &GA<u8, U3>) = Split::<u8, U0>::split(a); } }
+mod q251 { use super::*; fn p(a: &GA<u8, U3>) { let (_h, _t): (&GA<u8, U1>, &GA<u8, U2>) = Split::<u8, U1>::split(a); } }
+mod q252 { use super::*; fn p(a: &GA<u8, U3>) { let (_h, _t): (&GA<u8, U2>, &GA<u8, U1>) = Split::<u8, U2>::split(a); } }
+mod q253 { use super::*; fn p(a: &GA<u8, U3>) { let (_h, _t): (&GA<u8, U3>, &GA<u8, U0>) = Split::<u8, U3>::split(a); } }
+mod q254 { use super::*; fn p(a: &GA<u8, U3>) { let (_h, _t): (&GA<u8, U4>, &GA<u8, U0>) = Split::<u8, U4>::split(a); } }
+mod q255 { use super::*; fn p(a: &GA<u8, U3>) { let (_h, _t): (&GA<u8, U5>, &GA<u8, U0>) = Split::<u8, U5>::split(a); } }
+mod q256 { use super::*; fn p(a: &GA<u8, U3>) { let (_h, _t): (&GA<u8, U6>, &GA<u8, U0>) = Split::<u8, U6>::split(a); } }
+mod q257 { use super::*; fn p(a: &GA<u8, U3>) { let (_h, _t): (&GA<u8, U7>, &GA<u8, U0>) = Split::<u8, U7>::split(a); } }
+mod q258 { use super::*; fn p(a: GA<u8, U3>) { let _c: GA<u8, U0> = a.prepend(1u8); } }
+mod q259 { use super::*; fn p(a: &GA<u8, U3>) { let _m: GA<u16, U0> = a.map(|x| *x as u16); } }
+mod q260 { use super::*; fn p(a: GA<u8, U3>) { let _x: [u8; 0] = a.into_array(); } }
+mod q261 { use super::*; fn p(a: &mut GA<u8, U3>) { let _r: &mut [u8; 0] = a.as_mut(); } }
+mod q262 { use super::*; fn p(x: &[GA<u8, U3>]) { let _g = GA::<u8, U3>::into_chunks::<0>(x); } }
+mod q263 { use super::*; fn p(a: GA<u8, U3>) { let (_x, _c): (u8, GA<u8, U1>) = a.pop_front(); } }
+mod q264 { use super::*; fn p(a: GA<u8, U3>, b: GA<u8, U3>) { let _z: GA<u16, U1> = a.zip(b, |x, y| x as u16 + y as u16); } }
+mod q265 { use super::*; fn p() { let _g = GA::<u8, U3>::from_array([0u8; 1]); } }
+mod q266 { use super::*; fn p(x: &mut [u8; 1]) { let _g: &mut GA<u8, U3> = x.into(); } }
+mod q267 { use super::*; fn p(x: &mut [GA<u8, U3>]) { let _g = GA::<u8, U3>::into_chunks_mut::<1>(x); } }
+mod q268 { use super::*; fn p(a: GA<u8, U3>) { let (_x, _c): (u8, GA<u8, U2>) = a.swap_remove(0); } }
+mod q269 { use super::*; fn p() { let _a: GA<u8, U2> = arr![7u8; 3]; } }
+mod q270 { use super::*; fn p() { let _g: GA<u8, U3> = [0u8; 2].into(); } }
+mod q271 { use super::*; fn p(x: &mut [[u8; 2]]) { let _g: &mut [GA<u8, U3>] = GA::from_chunks_mut(x); } }
+mod q272 { use super::*; fn p(a: GA<u8, U3>) { let _c: GA<u8, U3> = a.prepend(1u8); } }
+mod q273 { use super::*; fn p(a: &GA<u8, U3>) { let _m: GA<u16, U3> = a.map(|x| *x as u16); } }
+mod q274 { use super::*; fn p(a: GA<u8, U3>) { let _x: [u8; 3] = a.into_array(); } }
+mod q275 { use super::*; fn p(a: &mut GA<u8, U3>) { let _r: &mut [u8; 3] = a.as_mut(); } }
+mod q276 { use super::*; fn p(x: &[GA<u8, U3>]) { let _g = GA::<u8, U3>::into_chunks::<3>(x); } }
+mod q277 { use super::*; fn p(a: GA<u8, U3>) { let (_x, _c): (u8, GA<u8, U4>) = a.pop_front(); } }
+mod q278 { use super::*; fn p(a: GA<u8, U3>, b: GA<u8, U3>) { let _z: GA<u16, U4> = a.zip(b, |x, y| x as u16 + y as u16); } }
+mod q279 { use super::*; fn p() { let _g = GA::<u8, U3>::from_array([0u8; 4]); } }
+mod q280 { use super::*; fn p(x: &mut [u8; 4]) { let _g: &mut GA<u8, U3> = x.into(); } }
+mod q281 { use super::*; fn p(x: &mut [GA<u8, U3>]) { let _g = GA::<u8, U3>::into_chunks_mut::<4>(x); } }
+mod q282 { use super::*; fn p(a: GA<u8, U3>) { let (_x, _c): (u8, GA<u8, U5>) = a.swap_remove(0); } }
+mod q283 { use super::*; fn p() { let _a: GA<u8, U5> = arr![7u8; 3]; } }
+mod q284 { use super::*; fn p() { let _g: GA<u8, U3> = [0u8; 5].into(); } }
+mod q285 { use super::*; fn p(x: &mut [[u8; 5]]) { let _g: &mut [GA<u8, U3>] = GA::from_chunks_mut(x); } }
+mod q286 { use super::*; fn p(a: GA<u8, U3>) { let _c: GA<u8, U6> = a.prepend(1u8); } }
+mod q287 { use super::*; fn p(a: &GA<u8, U3>) { let _m: GA<u16, U6> = a.map(|x| *x as u16); } }
+mod q288 { use super::*; fn p(a: GA<u8, U3>) { let _x: [u8; 6] = a.into_array(); } }
+mod q289 { use super::*; fn p(a: &mut GA<u8, U3>) { let _r: &mut [u8; 6] = a.as_mut(); } }
+mod q290 { use super::*; fn p(x: &[GA<u8, U3>]) { let _g = GA::<u8, U3>::into_chunks::<6>(x); } }
+mod q291 { use super::*; fn p(a: GA<u8, U3>) { let (_x, _c): (u8, GA<u8, U7>) = a.pop_front(); } }
+mod q292 { use super::*; fn p(a: GA<u8, U3>, b: GA<u8, U3>) { let _z: GA<u16, U7> = a.zip(b, |x, y| x as u16 + y as u16); } }
+mod q293 { use super::*; fn p() { let _g = GA::<u8, U3>::from_array([0u8; 7]); } }
+mod q294 { use super::*; fn p(x: &mut [u8; 7]) { let _g: &mut GA<u8, U3> = x.into(); } }
+mod q295 { use super::*; fn p(x: &mut [GA<u8, U3>]) { let _g = GA::<u8, U3>::into_chunks_mut::<7>(x); } }
+mod q296 { use super::*; fn p(a: GA<u8, U3>) { let (_x, _c): (u8, GA<u8, U8>) = a.swap_remove(0); } }
+mod q297 { use super::*; fn p() { let _a: GA<u8, U8> = arr![7u8; 3]; } }
+mod q298 { use super::*; fn p() { let _g: GA<u8, U3> = [0u8; 8].into(); } }
+mod q299 { use super::*; fn p(x: &mut [[u8; 8]]) { let _g: &mut [GA<u8, U3>] = GA::from_chunks_mut(x); } }
+mod q300 { use super::*; fn p(a: GA<u8, U3>) { let _u: GA<GA<u8, U0>, U1> = a.unflatten(); } }
+mod q301 { use super::*; fn p(a: GA<u8, U3>) { let _u: GA<GA<u8, U0>, U7> = a.unflatten(); } }
+mod q302 { use super::*; fn p(a: GA<u8, U3>) { let _u: GA<GA<u8, U1>, U5> = a.unflatten(); } }
+mod q303 { use super::*; fn p(a: GA<u8, U3>) { let _u: GA<GA<u8, U2>, U3> = a.unflatten(); } }
+mod q304 { use super::*; fn p(a: GA<u8, U3>) { let _u: GA<GA<u8, U3>, U1> = a.unflatten(); } }
+mod q305 { use super::*; fn p(a: GA<u8, U3>) { let _u: GA<GA<u8, U3>, U7> = a.unflatten(); } }
+mod q306 { use super::*; fn p(a: &GA<u8, U4>, b: GA<u8, U0>) { let _ = GenericSequence::inverted_zip2(b, a, |x: &u8, y: u8| x.wrapping_add(y)); } }
+mod q307 { use super::*; fn p(a: GA<u8, U4>, b: GA<u8, U0>) { let _c: GA<u8, U4> = a.concat(b); } }
+mod q308 { use super::*; fn p(a: GA<GA<u8, U4>, U0>) { let _f: GA<u8, U4> = a.flatten(); } }
+mod q309 { use super::*; fn p(a: GA<u8, U4>, b: GA<u8, U1>) { let _ = GenericSequence::inverted_zip2(b, a, |x: u8, y: u8| x.wrapping_add(y)); } }
+mod q310 { use super::*; fn p(a: GA<u8, U4>, b: GA<u8, U1>) { let _c: GA<u8, U4> = a.concat(b); } }
+mod q311 { use super::*; fn p(a: &GA<GA<u8, U4>, U1>) { let _f: &GA<u8, U4> = a.flatten(); } }
+mod q312 { use super::*; fn p(a: GA<u8, U4>, b: GA<u8, U2>) { let _ = GenericSequence::inverted_zip(b, a, |x: u8, y: u8| x.wrapping_add(y)); } }
+mod q313 { use super::*; fn p(a: GA<u8, U4>, b: GA<u8, U2>) { let _c: GA<u8, U0> = a.concat(b); } }
+mod q314 { use super::*; fn p(a: GA<GA<u8, U4>, U2>) { let _f: GA<u8, U7> = a.flatten(); } }
+mod q315 { use super::*; fn p(a: GA<u8, U4>, b: GA<u8, U3>) { let _ = a.zip(b, |x, y| x.wrapping_add(y)); } }
+mod q316 { use super::*; fn p(a: GA<u8, U4>, b: GA<u8, U3>) -> bool { a == b } }
+mod q317 { use super::*; fn p(a: GA<u8, U4>, b: GA<u8, U3>) { let _c: GA<u8, U8> = a.concat(b); } }
+mod q318 { use super::*; fn p(a: &GA<GA<u8, U4>, U3>) { let _f: &GA<u8, U12> = a.flatten(); } }
+mod q319 { use super::*; fn p(a: GA<u8, U4>, b: GA<u8, U4>) { let _ = GenericSequence::inverted_zip(b, a, |x: u8, y: u8| x.wrapping_add(y)); } }
+mod q320 { use super::*; fn p(a: GA<u8, U4>, b: GA<u8, U4>) { let _c: GA<u8, U0> = a.concat(b); } }
+mod q321 { use super::*; fn p(a: GA<GA<u8, U4>, U4>) { let _f: GA<u8, U15> = a.flatten(); } }
+mod q322 { use super::*; fn p(a: GA<u8, U4>, b: GA<u8, U5>) { let _ = a.zip(b, |x, y| x.wrapping_add(y)); } }
+mod q323 { use super::*; fn p(a: GA<u8, U4>, b: GA<u8, U5>) -> bool { a == b } }
+mod q324 { use super::*; fn p(a: GA<u8, U4>, b: GA<u8, U5>) { let _c: GA<u8, U10> = a.concat(b); } }
+mod q325 { use super::*; fn p(a: &GA<GA<u8, U4>, U5>) { let _f: &GA<u8, U20> = a.flatten(); } }
+mod q326 { use super::*; fn p(a: GA<u8, U4>, b: GA<u8, U6>) { let _ = GenericSequence::inverted_zip(b, a, |x: u8, y: u8| x.wrapping_add(y)); } }
+mod q327 { use super::*; fn p(a: GA<u8, U4>, b: GA<u8, U6>) { let _c: GA<u8, U0> = a.concat(b); } }
+mod q328 { use super::*; fn p(a: GA<GA<u8, U4>, U6>) { let _f: GA<u8, U23> = a.flatten(); } }
+mod q329 { use super::*; fn p(a: GA<u8, U4>) { let (_h, _t): (GA<u8, U0>, GA<u8, U0>) = Split::<u8, U0>::split(a); } }
+mod q330 { use super::*; fn p(a: GA<u8, U4>) { let (_h, _t): (GA<u8, U1>, GA<u8, U0>) = Split::<u8, U1>::split(a); } }
+mod q331 { use super::*; fn p(a: GA<u8, U4>) { let (_h, _t): (GA<u8, U2>, GA<u8, U0>) = Split::<u8, U2>::split(a); } }
+mod q332 { use super::*; fn p(a: GA<u8, U4>) { let (_h, _t): (GA<u8, U2>, GA<u8, U4>) = Split::<u8, U2>::split(a); } }
+mod q333 { use super::*; fn p(a: GA<u8, U4>) { let (_h, _t): (GA<u8, U3>, GA<u8, U2>) = Split::<u8, U3>::split(a); } }
+mod q334 { use super::*; fn p(a: GA<u8, U4>) { let (_h, _t): (GA<u8, U4>, GA<u8, U1>) = Split::<u8, U4>::split(a); } }
+mod q335 { use super::*; fn p(a: GA<u8, U4>) { let (_h, _t): (GA<u8, U5>, GA<u8, U1>) = Split::<u8, U5>::split(a); } }
+mod q336 { use super::*; fn p(a: GA<u8, U4>) { let (_h, _t): (GA<u8, U6>, GA<u8, U1>) = Split::<u8, U6>::split(a); } }
+mod q337 { use super::*; fn p(a: GA<u8, U4>) { let (_h, _t): (GA<u8, U7>, GA<u8, U1>) = Split::<u8, U7>::split(a); } }
+mod q338 { use super::*; fn p(a: GA<u8, U4>) { let (_c, _x): (GA<u8, U0>, u8) = a.pop_back(); } }
+mod q339 { use super::*; fn p() { let _g: GA<u8, U0> = GA::<u8, U4>::generate(|i| i as u8); } }
+mod q340 { use super::*; fn p(a: GA<u8, U4>) { let _x = a.into_array::<0>(); } }
+mod q341 { use super::*; fn p(x: &[u8; 0]) { let _g: &GA<u8, U4> = x.into(); } }
+mod q342 { use super::*; fn p(x: &mut [GA<u8, U4>]) { let _g: &mut [[u8; 0]] = GA::into_chunks_mut(x); } }
+mod q343 { use super::*; fn p(a: GA<u8, U4>) { let (_x, _c): (u8, GA<u8, U1>) = a.remove(0); } }
+mod q344 { use super::*; fn p() { let _a: GA<u8, U1> = arr![7u8; U4]; } }
+mod q345 { use super::*; fn p(a: GA<u8, U4>) { let _x: [u8; 1] = a.into(); } }
+mod q346 { use super::*; fn p(x: &[[u8; 1]]) { let _g: &[GA<u8, U4>] = GA::from_chunks(x); } }
+mod q347 { use super::*; fn p(a: GA<u8, U4>) { let _c: GA<u8, U2> = a.append(1u8); } }
+mod q348 { use super::*; fn p(a: GA<u8, U4>) { let _m: GA<u16, U2> = a.map(|x| x as u16); } }
+mod q349 { use super::*; fn p() { let _a: GA<u8, U2> = arr![1u8, 1u8, 1u8, 1u8]; } }
+mod q350 { use super::*; fn p(a: &GA<u8, U4>) { let _r: &[u8; 2] = a.as_ref(); } }
+mod q351 { use super::*; fn p(x: &[GA<u8, U4>]) { let _g: &[[u8; 2]] = GA::into_chunks(x); } }
+mod q352 { use super::*; fn p(a: GA<u8, U4>) { let (_c, _x): (GA<u8, U3>, u8) = a.pop_back(); } }
+mod q353 { use super::*; fn p() { let _g: GA<u8, U3> = GA::<u8, U4>::generate(|i| i as u8); } }
+mod q354 { use super::*; fn p(a: GA<u8, U4>) { let _x = a.into_array::<3>(); } }
+mod q355 { use super::*; fn p(x: &[u8; 3]) { let _g: &GA<u8, U4> = x.into(); } }
+mod q356 { use super::*; fn p(x: &mut [GA<u8, U4>]) { let _g: &mut [[u8; 3]] = GA::into_chunks_mut(x); } }
+mod q357 { use super::*; fn p(a: GA<u8, U4>) { let (_x, _c): (u8, GA<u8, U4>) = a.remove(0); } }
+mod q358 { use super::*; fn p() { let _a: GA<u8, U4> = arr![7u8; U4]; } }
+mod q359 { use super::*; fn p(a: GA<u8, U4>) { let _x: [u8; 4] = a.into(); } }
+mod q360 { use super::*; fn p(x: &[[u8; 4]]) { let _g: &[GA<u8, U4>] = GA::from_chunks(x); } }
+mod q361 { use super::*; fn p(a: GA<u8, U4>) { let _c: GA<u8, U5> = a.append(1u8); } }
+mod q362 { use super::*; fn p(a: GA<u8, U4>) { let _m: GA<u16, U5> = a.map(|x| x as u16); } }
+mod q363 { use super::*; fn p() { let _a: GA<u8, U5> = arr![1u8, 1u8, 1u8, 1u8]; } }
+mod q364 { use super::*; fn p(a: &GA<u8, U4>) { let _r: &[u8; 5] = a.as_ref(); } }
+mod q365 { use super::*; fn p(x: &[GA<u8, U4>]) { let _g: &[[u8; 5]] = GA::into_chunks(x); } }
+mod q366 { use super::*; fn p(a: GA<u8, U4>) { let (_c, _x): (GA<u8, U6>, u8) = a.pop_back(); } }
+mod q367 { use super::*; fn p() { let _g: GA<u8, U6> = GA::<u8, U4>::generate(|i| i as u8); } }
+mod q368 { use super::*; fn p(a: GA<u8, U4>) { let _x = a.into_array::<6>(); } }
+mod q369 { use super::*; fn p(x: &[u8; 6]) { let _g: &GA<u8, U4> = x.into(); } }
+mod q370 { use super::*; fn p(x: &mut [GA<u8, U4>]) { let _g: &mut [[u8; 6]] = GA::into_chunks_mut(x); } }
+mod q371 { use super::*; fn p(a: GA<u8, U4>) { let (_x, _c): (u8, GA<u8, U7>) = a.remove(0); } }
+mod q372 { use super::*; fn p() { let _a: GA<u8, U7> = arr![7u8; U4]; } }
+mod q373 { use super::*; fn p(a: GA<u8, U4>) { let _x: [u8; 7] = a.into(); } }
+mod q374 { use super::*; fn p(x: &[[u8; 7]]) { let _g: &[GA<u8, U4>] = GA::from_chunks(x); } }
+mod q375 { use super::*; fn p(a: GA<u8, U4>) { let _c: GA<u8, U8> = a.append(1u8); } }
+mod q376 { use super::*; fn p(a: GA<u8, U4>) { let _m: GA<u16, U8> = a.map(|x| x as u16); } }
+mod q377 { use super::*; fn p() { let _a: GA<u8, U8> = arr![1u8, 1u8, 1u8, 1u8]; } }
+mod q378 { use super::*; fn p(a: &GA<u8, U4>) { let _r: &[u8; 8] = a.as_ref(); } }
+mod q379 { use super::*; fn p(x: &[GA<u8, U4>]) { let _g: &[[u8; 8]] = GA::into_chunks(x); } }
+mod q380 { use super::*; fn p(a: GA<u8, U4>) { let _u: GA<GA<u8, U0>, U2> = a.unflatten(); } }
+mod q381 { use super::*; fn p(a: GA<u8, U4>) { let _u: GA<GA<u8, U1>, U0> = a.unflatten(); } }
+mod q382 { use super::*; fn p(a: GA<u8, U4>) { let _u: GA<GA<u8, U1>, U6> = a.unflatten(); } }
+mod q383 { use super::*; fn p(a: GA<u8, U4>) { let _u: GA<GA<u8, U2>, U4> = a.unflatten(); } }
+mod q384 { use super::*; fn p(a: GA<u8, U4>) { let _u: GA<GA<u8, U3>, U2> = a.unflatten(); } }
+mod q385 { use super::*; fn p(a: GA<u8, U5>, b: GA<u8, U0>) { let _ = a.zip(b, |x, y| x.wrapping_add(y)); } }
+mod q386 { use super::*; fn p(a: GA<u8, U5>, b: GA<u8, U0>) -> bool { a == b } }
+mod q387 { use super::*; fn p(a: GA<u8, U5>, b: GA<u8, U0>) { let _c: GA<u8, U6> = a.concat(b); } }
+mod q388 { use super::*; fn p(a: &GA<GA<u8, U5>, U0>) { let _f: &GA<u8, U5> = a.flatten(); } }
+mod q389 { use super::*; fn p(a: &GA<u8, U5>, b: GA<u8, U1>) { let _ = GenericSequence::inverted_zip2(b, a, |x: &u8, y: u8| x.wrapping_add(y)); } }
+mod q390 { use super::*; fn p(a: GA<u8, U5>, b: GA<u8, U1>) { let _c: GA<u8, U6> = a.concat(b); } }
+mod q391 { use super::*; fn p(a: GA<GA<u8, U5>, U1>) { let _f: GA<u8, U6> = a.flatten(); } }
+mod q392 { use super::*; fn p(a: GA<u8, U5>, b: GA<u8, U2>) { let _ = GenericSequence::inverted_zip2(b, a, |x: u8, y: u8| x.wrapping_add(y)); } }
+mod q393 { use super::*; fn p(a: GA<u8, U5>, b: GA<u8, U2>) { let _c: GA<u8, U6> = a.concat(b); } }
+mod q394 { use super::*; fn p(a: &GA<GA<u8, U5>, U2>) { let _f: &GA<u8, U9> = a.flatten(); } }
+mod q395 { use super::*; fn p(a: &GA<u8, U5>, b: &GA<u8, U3>) { let _ = a.zip(b, |x, y| x.wrapping_add(*y)); } }
+mod q396 { use super::*; fn p(a: GA<u8, U5>, b: GA<u8, U3>) -> bool { a < b } }
+mod q397 { use super::*; fn p(a: GA<GA<u8, U5>, U3>) { let _f: GA<u8, U8> = a.flatten(); } }
+mod q398 { use super::*; fn p(a: GA<GA<u8, U5>, U3>) { let _f: GA<u8, U16> = a.flatten(); } }
+mod q399 { use super::*; fn p(a: GA<u8, U5>, b: GA<u8, U4>) { let _ = GenericSequence::inverted_zip2(b, a, |x: u8, y: u8| x.wrapping_add(y)); } }
+mod q400 { use super::*; fn p(a: GA<u8, U5>, b: GA<u8, U4>) { let _c: GA<u8, U8> = a.concat(b); } }
+mod q401 { use super::*; fn p(a: &GA<GA<u8, U5>, U4>) { let _f: &GA<u8, U19> = a.flatten(); } }
+mod q402 { use super::*; fn p(a: &GA<u8, U5>, b: &GA<u8, U5>) { let _ = a.zip(b, |x, y| x.wrapping_add(*y)); } }
+mod q403 { use super::*; fn p(a: GA<u8, U5>, b: GA<u8, U5>) -> bool { a < b } }
+mod q404 { use super::*; fn p(a: GA<GA<u8, U5>, U5>) { let _f: GA<u8, U10> = a.flatten(); } }
+mod q405 { use super::*; fn p(a: GA<GA<u8, U5>, U5>) { let _f: GA<u8, U26> = a.flatten(); } }
+mod q406 { use super::*; fn p(a: GA<u8, U5>, b: GA<u8, U6>) { let _ = GenericSequence::inverted_zip2(b, a, |x: u8, y: u8| x.wrapping_add(y)); } }
+mod q407 { use super::*; fn p(a: GA<u8, U5>, b: GA<u8, U6>) { let _c: GA<u8, U10> = a.concat(b); } }
+mod q408 { use super::*; fn p(a: &GA<GA<u8, U5>, U6>) { let _f: &GA<u8, U29> = a.flatten(); } }
+mod q409 { use super::*; fn p(a: &GA<u8, U5>) { let (_h, _t): (&GA<u8, U0>, &GA<u8, U0>) = Split::<u8, U0>::split(a); } }
+mod q410 { use super::*; fn p(a: &GA<u8, U5>) { let (_h, _t): (&GA<u8, U1>, &GA<u8, U0>) = Split::<u8, U1>::split(a); } }
+mod q411 { use super::*; fn p(a: &GA<u8, U5>) { let (_h, _t): (&GA<u8, U2>, &GA<u8, U0>) = Split::<u8, U2>::split(a); } }
+mod q412 { use super::*; fn p(a: &GA<u8, U5>) { let (_h, _t): (&GA<u8, U2>, &GA<u8, U5>) = Split::<u8, U2>::split(a); } }
+mod q413 { use super::*; fn p(a: &GA<u8, U5>) { let (_h, _t): (&GA<u8, U3>, &GA<u8, U3>) = Split::<u8, U3>::split(a); } }
+mod q414 { use super::*; fn p(a: &GA<u8, U5>) { let (_h, _t): (&GA<u8, U4>, &GA<u8, U1>) = Split::<u8, U4>::split(a); } }
+mod q415 { use super::*; fn p(a: &GA<u8, U5>) { let (_h, _t): (&GA<u8, U5>, &GA<u8, U0>) = Split::<u8, U5>::split(a); } }
+mod q416 { use super::*; fn p(a: &GA<u8, U5>) { let (_h, _t): (&GA<u8, U6>, &GA<u8, U0>) = Split::<u8, U6>::split(a); } }
+mod q417 { use super::*; fn p(a: &GA<u8, U5>) { let (_h, _t): (&GA<u8, U7>, &GA<u8, U0>) = Split::<u8, U7>::split(a); } }
+mod q418 { use super::*; fn p(a: GA<u8, U5>) { let _c: GA<u8, U0> = a.prepend(1u8); } }
+mod q419 { use super::*; fn p(a: &GA<u8, U5>) { let _m: GA<u16, U0> = a.map(|x| *x as u16); } }
+mod q420 { use super::*; fn p(a: GA<u8, U5>) { let _x: [u8; 0] = a.into_array(); } }
+mod q421 { use super::*; fn p(a: &mut GA<u8, U5>) { let _r: &mut [u8; 0] = a.as_mut(); } }
+mod q422 { use super::*; fn p(x: &[GA<u8, U5>]) { let _g = GA::<u8, U5>::into_chunks::<0>(x); } }
+mod q423 { use super::*; fn p(a: GA<u8, U5>) { let (_x, _c): (u8, GA<u8, U1>) = a.pop_front(); } }
+mod q424 { use super::*; fn p(a: GA<u8, U5>, b: GA<u8, U5>) { let _z: GA<u16, U1> = a.zip(b, |x, y| x as u16 + y as u16); } }
+mod q425 { use super::*; fn p() { let _g = GA::<u8, U5>::from_array([0u8; 1]); } }
+mod q426 { use super::*; fn p(x: &mut [u8; 1]) { let _g: &mut GA<u8, U5> = x.into(); } }
+mod q427 { use super::*; fn p(x: &mut [GA<u8, U5>]) { let _g = GA::<u8, U5>::into_chunks_mut::<1>(x); } }
+mod q428 { use super::*; fn p(a: GA<u8, U5>) { let (_x, _c): (u8, GA<u8, U2>) = a.swap_remove(0); } }
+mod q429 { use super::*; fn p() { let _a: GA<u8, U2> = arr![7u8; 5]; } }
+mod q430 { use super::*; fn p() { let _g: GA<u8, U5> = [0u8; 2].into(); } }
+mod q431 { use super::*; fn p(x: &mut [[u8; 2]]) { let _g: &mut [GA<u8, U5>] = GA::from_chunks_mut(x); } }
+mod q432 { use super::*; fn p(a: GA<u8, U5>) { let _c: GA<u8, U3> = a.prepend(1u8); } }
+mod q433 { use super::*; fn p(a: &GA<u8, U5>) { let _m: GA<u16, U3> = a.map(|x| *x as u16); } }
+mod q434 { use super::*; fn p(a: GA<u8, U5>) { let _x: [u8; 3] = a.into_array(); } }
+mod q435 { use super::*; fn p(a: &mut GA<u8, U5>) { let _r: &mut [u8; 3] = a.as_mut(); } }
+mod q436 { use super::*; fn p(x: &[GA<u8, U5>]) { let _g = GA::<u8, U5>::into_chunks::<3>(x); } }
+mod q437 { use super::*; fn p(a: GA<u8, U5>) { let (_x, _c): (u8, GA<u8, U4>) = a.pop_front(); } }
+mod q438 { use super::*; fn p(a: GA<u8, U5>, b: GA<u8, U5>) { let _z: GA<u16, U4> = a.zip(b, |x, y| x as u16 + y as u16); } }
+mod q439 { use super::*; fn p() { let _g = GA::<u8, U5>::from_array([0u8; 4]); } }
+mod q440 { use super::*; fn p(x: &mut [u8; 4]) { let _g: &mut GA<u8, U5> = x.into(); } }
+mod q441 { use super::*; fn p(x: &mut [GA<u8, U5>]) { let _g = GA::<u8, U5>::into_chunks_mut::<4>(x); } }
+mod q442 { use super::*; fn p(a: GA<u8, U5>) { let (_x, _c): (u8, GA<u8, U5>) = a.swap_remove(0); } }
+mod q443 { use super::*; fn p() { let _a: GA<u8, U5> = arr![7u8; 5]; } }
+mod q444 { use super::*; fn p() { let _g: GA<u8, U5> = [0u8; 5].into(); } }
+mod q445 { use super::*; fn p(x: &mut [[u8; 5]]) { let _g: &mut [GA<u8, U5>] = GA::from_chunks_mut(x); } }
+mod q446 { use super::*; fn p(a: GA<u8, U5>) { let _c: GA<u8, U6> = a.prepend(1u8); } }
+mod q447 { use super::*; fn p(a: &GA<u8, U5>) { let _m: GA<u16, U6> = a.map(|x| *x as u16); } }
+mod q448 { use super::*; fn p(a: GA<u8, U5>) { let _x: [u8; 6] = a.into_array(); } }
+mod q449 { use super::*; fn p(a: &mut GA<u8, U5>) { let _r: &mut [u8; 6] = a.as_mut(); } }
+mod q450 { use super::*; fn p(x: &[GA<u8, U5>]) { let _g = GA::<u8, U5>::into_chunks::<6>(x); } }
+mod q451 { use super::*; fn p(a: GA<u8, U5>) { let (_x, _c): (u8, GA<u8, U7>) = a.pop_front(); } }
+mod q452 { use super::*; fn p(a: GA<u8, U5>, b: GA<u8, U5>) { let _z: GA<u16, U7> = a.zip(b, |x, y| x as u16 + y as u16); } }
+mod q453 { use super::*; fn p() { let _g = GA::<u8, U5>::from_array([0u8; 7]); } }
+mod q454 { use super::*; fn p(x: &mut [u8; 7]) { let _g: &mut GA<u8, U5> = x.into(); } }
+mod q455 { use super::*; fn p(x: &mut [GA<u8, U5>]) { let _g = GA::<u8, U5>::into_chunks_mut::<7>(x); } }
+mod q456 { use super::*; fn p(a: GA<u8, U5>) { let (_x, _c): (u8, GA<u8, U8>) = a.swap_remove(0); } }
+mod q457 { use super::*; fn p() { let _a: GA<u8, U8> = arr![7u8; 5]; } }
+mod q458 { use super::*; fn p() { let _g: GA<u8, U5> = [0u8; 8].into(); } }
+mod q459 { use super::*; fn p(x: &mut [[u8; 8]]) { let _g: &mut [GA<u8, U5>] = GA::from_chunks_mut(x); } }
+mod q460 { use super::*; fn p(a: GA<u8, U5>) { let _u: GA<GA<u8, U0>, U1> = a.unflatten(); } }
+mod q461 { use super::*; fn p(a: GA<u8, U5>) { let _u: GA<GA<u8, U0>, U7> = a.unflatten(); } }
+mod q462 { use super::*; fn p(a: GA<u8, U5>) { let _u: GA<GA<u8, U1>, U5> = a.unflatten(); } }
+mod q463 { use super::*; fn p(a: GA<u8, U5>) { let _u: GA<GA<u8, U2>, U3> = a.unflatten(); } }
+mod q464 { use super::*; fn p(a: GA<u8, U5>) { let _u: GA<GA<u8, U3>, U1> = a.unflatten(); } }
+mod q465 { use super::*; fn p(a: GA<u8, U5>) { let _u: GA<GA<u8, U3>, U7> = a.unflatten(); } }
+mod q466 { use super::*; fn p(a: &GA<u8, U6>, b: GA<u8, U0>) { let _ = GenericSequence::inverted_zip2(b, a, |x: &u8, y: u8| x.wrapping_add(y)); } }
+mod q467 { use super::*; fn p(a: GA<u8, U6>, b: GA<u8, U0>) { let _c: GA<u8, U6> = a.concat(b); } }
+mod q468 { use super::*; fn p(a: GA<GA<u8, U6>, U0>) { let _f: GA<u8, U6> = a.flatten(); } }
+mod q469 { use super::*; fn p(a: GA<u8, U6>, b: GA<u8, U1>) { let _ = GenericSequence::inverted_zip2(b, a, |x: u8, y: u8| x.wrapping_add(y)); } }
+mod q470 { use super::*; fn p(a: GA<u8, U6>, b: GA<u8, U1>) { let _c: GA<u8, U6> = a.concat(b); } }
+mod q471 { use super::*; fn p(a: &GA<GA<u8, U6>, U1>) { let _f: &GA<u8, U6> = a.flatten(); } }
+mod q472 { use super::*; fn p(a: GA<u8, U6>, b: GA<u8, U2>) { let _ = GenericSequence::inverted_zip(b, a, |x: u8, y: u8| x.wrapping_add(y)); } }
+mod q473 { use super::*; fn p(a: GA<u8, U6>, b: GA<u8, U2>) { let _c: GA<u8, U0> = a.concat(b); } }
+mod q474 { use super::*; fn p(a: GA<GA<u8, U6>, U2>) { let _f: GA<u8, U11> = a.flatten(); } }
+mod q475 { use super::*; fn p(a: GA<u8, U6>, b: GA<u8, U3>) { let _ = a.zip(b, |x, y| x.wrapping_add(y)); } }
+mod q476 { use super::*; fn p(a: GA<u8, U6>, b: GA<u8, U3>) -> bool { a == b } }
+mod q477 { use super::*; fn p(a: GA<u8, U6>, b: GA<u8, U3>) { let _c: GA<u8, U10> = a.concat(b); } }
+mod q478 { use super::*; fn p(a: &GA<GA<u8, U6>, U3>) { let _f: &GA<u8, U18> = a.flatten(); } }
+mod q479 { use super::*; fn p(a: GA<u8, U6>, b: GA<u8, U4>) { let _ = GenericSequence::inverted_zip(b, a, |x: u8, y: u8| x.wrapping_add(y)); } }
+mod q480 { use super::*; fn p(a: GA<u8, U6>, b: GA<u8, U4>) { let _c: GA<u8, U0> = a.concat(b); } }
+mod q481 { use super::*; fn p(a: GA<GA<u8, U6>, U4>) { let _f: GA<u8, U23> = a.flatten(); } }
+mod q482 { use super::*; fn p(a: GA<u8, U6>, b: GA<u8, U5>) { let _ = a.zip(b, |x, y| x.wrapping_add(y)); } }
+mod q483 { use super::*; fn p(a: GA<u8, U6>, b: GA<u8, U5>) -> bool { a == b } }
+mod q484 { use super::*; fn p(a: GA<u8, U6>, b: GA<u8, U5>) { let _c: GA<u8, U12> = a.concat(b); } }
+mod q485 { use super::*; fn p(a: &GA<GA<u8, U6>, U5>) { let _f: &GA<u8, U30> = a.flatten(); } }
+mod q486 { use super::*; fn p(a: GA<u8, U6>, b: GA<u8, U6>) { let _ = GenericSequence::inverted_zip(b, a, |x: u8, y: u8| x.wrapping_add(y)); } }
+mod q487 { use super::*; fn p(a: GA<u8, U6>, b: GA<u8, U6>) { let _c: GA<u8, U0> = a.concat(b); } }
+mod q488 { use super::*; fn p(a: GA<GA<u8, U6>, U6>) { let _f: GA<u8, U35> = a.flatten(); } }
+mod q489 { use super::*; fn p(a: GA<u8, U6>) { let (_h, _t): (GA<u8, U0>, GA<u8, U0>) = Split::<u8, U0>::split(a); } }
+mod q490 { use super::*; fn p(a: GA<u8, U6>) { let (_h, _t): (GA<u8, U1>, GA<u8, U0>) = Split::<u8, U1>::split(a); } }
+mod q491 { use super::*; fn p(a: GA<u8, U6>) { let (_h, _t): (GA<u8, U2>, GA<u8, U0>) = Split::<u8, U2>::split(a); } }
+mod q492 { use super::*; fn p(a: GA<u8, U6>) { let (_h, _t): (GA<u8, U2>, GA<u8, U6>) = Split::<u8, U2>::split(a); } }
+mod q493 { use super::*; fn p(a: GA<u8, U6>) { let (_h, _t): (GA<u8, U3>, GA<u8, U4>) = Split::<u8, U3>::split(a); } }
+mod q494 { use super::*; fn p(a: GA<u8, U6>) { let (_h, _t): (GA<u8, U4>, GA<u8, U2>) = Split::<u8, U4>::split(a); } }
+mod q495 { use super::*; fn p(a: GA<u8, U6>) { let (_h, _t): (GA<u8, U5>, GA<u8, U0>) = Split::<u8, U5>::split(a); } }
+mod q496 { use super::*; fn p(a: GA<u8, U6>) { let (_h, _t): (GA<u8, U5>, GA<u8, U6>) = Split::<u8, U5>::split(a); } }
+mod q497 { use super::*; fn p(a: GA<u8, U6>) { let (_h, _t): (GA<u8, U6>, GA<u8, U6>) = Split::<u8, U6>::split(a); } }
+mod q498 { use super::*; fn p(a: GA<u8, U6>) { let (_h, _t): (GA<u8, U7>, GA<u8, U6>) = Split::<u8, U7>::split(a); } }
+mod q499 { use super::*; fn p(a: GA<u8, U6>) { let (_x, _c): (u8, GA<u8, U0>) = a.remove(0); } }
+mod q500 { use super::*; fn p() { let _a: GA<u8, U0> = arr![7u8; U6]; } }
+mod q501 { use super::*; fn p(a: GA<u8, U6>) { let _x: [u8; 0] = a.into(); } }
+mod q502 { use super::*; fn p(x: &[[u8; 0]]) { let _g: &[GA<u8, U6>] = GA::from_chunks(x); } }
+mod q503 { use super::*; fn p(a: GA<u8, U6>) { let _c: GA<u8, U1> = a.append(1u8); } }
+mod q504 { use super::*; fn p(a: GA<u8, U6>) { let _m: GA<u16, U1> = a.map(|x| x as u16); } }
+mod q505 { use super::*; fn p() { let _a: GA<u8, U1> = arr![1u8, 1u8, 1u8, 1u8, 1u8, 1u8]; } }
+mod q506 { use super::*; fn p(a: &GA<u8, U6>) { let _r: &[u8; 1] = a.as_ref(); } }
+mod q507 { use super::*; fn p(x: &[GA<u8, U6>]) { let _g: &[[u8; 1]] = GA::into_chunks(x); } }
+mod q508 { use super::*; fn p(a: GA<u8, U6>) { let (_c, _x): (GA<u8, U2>, u8) = a.pop_back(); } }
+mod q509 { use super::*; fn p() { let _g: GA<u8, U2> = GA::<u8, U6>::generate(|i| i as u8); } }
+mod q510 { use super::*; fn p(a: GA<u8, U6>) { let _x = a.into_array::<2>(); } }
+mod q511 { use super::*; fn p(x: &[u8; 2]) { let _g: &GA<u8, U6> = x.into(); } }
+mod q512 { use super::*; fn p(x: &mut [GA<u8, U6>]) { let _g: &mut [[u8; 2]] = GA::into_chunks_mut(x); } }
+mod q513 { use super::*; fn p(a: GA<u8, U6>) { let (_x, _c): (u8, GA<u8, U3>) = a.remove(0); } }
+mod q514 { use super::*; fn p() { let _a: GA<u8, U3> = arr![7u8; U6]; } }
+mod q515 { use super::*; fn p(a: GA<u8, U6>) { let _x: [u8; 3] = a.into(); } }
+mod q516 { use super::*; fn p(x: &[[u8; 3]]) { let _g: &[GA<u8, U6>] = GA::from_chunks(x); } }
+mod q517 { use super::*; fn p(a: GA<u8, U6>) { let _c: GA<u8, U4> = a.append(1u8); } }
+mod q518 { use super::*; fn p(a: GA<u8, U6>) { let _m: GA<u16, U4> = a.map(|x| x as u16); } }
+mod q519 { use super::*; fn p() { let _a: GA<u8, U4> = arr![1u8, 1u8, 1u8, 1u8, 1u8, 1u8]; } }
+mod q520 { use super::*; fn p(a: &GA<u8, U6>) { let _r: &[u8; 4] = a.as_ref(); } }
+mod q521 { use super::*; fn p(x: &[GA<u8, U6>]) { let _g: &[[u8; 4]] = GA::into_chunks(x); } }
+mod q522 { use super::*; fn p(a: GA<u8, U6>) { let (_c, _x): (GA<u8, U5>, u8) = a.pop_back(); } }
+mod q523 { use super::*; fn p() { let _g: GA<u8, U5> = GA::<u8, U6>::generate(|i| i as u8); } }
+mod q524 { use super::*; fn p(a: GA<u8, U6>) { let _x = a.into_array::<5>(); } }
+mod q525 { use super::*; fn p(x: &[u8; 5]) { let _g: &GA<u8, U6> = x.into(); } }
+mod q526 { use super::*; fn p(x: &mut [GA<u8, U6>]) { let _g: &mut [[u8; 5]] = GA::into_chunks_mut(x); } }
+mod q527 { use super::*; fn p(a: GA<u8, U6>) { let (_x, _c): (u8, GA<u8, U6>) = a.remove(0); } }
+mod q528 { use super::*; fn p() { let _a: GA<u8, U6> = arr![7u8; U6]; } }
+mod q529 { use super::*; fn p(a: GA<u8, U6>) { let _x: [u8; 6] = a.into(); } }
+mod q530 { use super::*; fn p(x: &[[u8; 6]]) { let _g: &[GA<u8, U6>] = GA::from_chunks(x); } }
+mod q531 { use super::*; fn p(a: GA<u8, U6>) { let _c: GA<u8, U7> = a.append(1u8); } }
+mod q532 { use super::*; fn p(a: GA<u8, U6>) { let _m: GA<u16, U7> = a.map(|x| x as u16); } }
+mod q533 { use super::*; fn p() { let _a: GA<u8, U7> = arr![1u8, 1u8, 1u8, 1u8, 1u8, 1u8]; } }
+mod q534 { use super::*; fn p(a: &GA<u8, U6>) { let _r: &[u8; 7] = a.as_ref(); } }
+mod q535 { use super::*; fn p(x: &[GA<u8, U6>]) { let _g: &[[u8; 7]] = GA::into_chunks(x); } }
+mod q536 { use super::*; fn p(a: GA<u8, U6>) { let (_c, _x): (GA<u8, U8>, u8) = a.pop_back(); } }
+mod q537 { use super::*; fn p() { let _g: GA<u8, U8> = GA::<u8, U6>::generate(|i| i as u8); } }
+mod q538 { use super::*; fn p(a: GA<u8, U6>) { let _x = a.into_array::<8>(); } }
+mod q539 { use super::*; fn p(x: &[u8; 8]) { let _g: &GA<u8, U6> = x.into(); } }
+mod q540 { use super::*; fn p(x: &mut [GA<u8, U6>]) { let _g: &mut [[u8; 8]] = GA::into_chunks_mut(x); } }
+mod q541 { use super::*; fn p(a: GA<u8, U6>) { let _u: GA<GA<u8, U0>, U4> = a.unflatten(); } }
+mod q542 { use super::*; fn p(a: GA<u8, U6>) { let _u: GA<GA<u8, U1>, U2> = a.unflatten(); } }
+mod q543 { use super::*; fn p(a: GA<u8, U6>) { let _u: GA<GA<u8, U2>, U0> = a.unflatten(); } }
+mod q544 { use super::*; fn p(a: GA<u8, U6>) { let _u: GA<GA<u8, U2>, U6> = a.unflatten(); } }
+mod q545 { use super::*; fn p(a: GA<u8, U6>) { let _u: GA<GA<u8, U3>, U4> = a.unflatten(); } }
+mod q546 { use super::*; fn p() { let _g: GA<u8, U1> = (0u8, ).into(); } }
+mod q547 { use super::*; fn p() { let _g: GA<u8, U13> = (0u8, ).into(); } }
+mod q548 { use super::*; fn p() { let _g: GA<u8, U2> = (0u8, 0u8, ).into(); } }
+mod q549 { use super::*; fn p() { let _g: GA<u8, U13> = (0u8, 0u8, ).into(); } }
+mod q550 { use super::*; fn p() { let _g: GA<u8, U3> = (0u8, 0u8, 0u8, ).into(); } }
+mod q551 { use super::*; fn p() { let _g: GA<u8, U13> = (0u8, 0u8, 0u8, ).into(); } }
+mod q552 { use super::*; fn p() { let _g: GA<u8, U4> = (0u8, 0u8, 0u8, 0u8, ).into(); } }
+mod q553 { use super::*; fn p() { let _g: GA<u8, U13> = (0u8, 0u8, 0u8, 0u8, ).into(); } }
+mod q554 { use super::*; fn p() { let _g: GA<u8, U5> = (0u8, 0u8, 0u8, 0u8, 0u8, ).into(); } }
+mod q555 { use super::*; fn p() { let _g: GA<u8, U13> = (0u8, 0u8, 0u8, 0u8, 0u8, ).into(); } }
+mod q556 { use super::*; fn p() { let _g: GA<u8, U6> = (0u8, 0u8, 0u8, 0u8, 0u8, 0u8, ).into(); } }
+mod q557 { use super::*; fn p() { let _g: GA<u8, U13> = (0u8, 0u8, 0u8, 0u8, 0u8, 0u8, ).into(); } }
+mod q558 { use super::*; fn p() { let _g: GA<u8, U7> = (0u8, 0u8, 0u8, 0u8, 0u8, 0u8, 0u8, ).into(); } }
+mod q559 { use super::*; fn p() { let _g: GA<u8, U13> = (0u8, 0u8, 0u8, 0u8, 0u8, 0u8, 0u8, ).into(); } }
+mod q560 { use super::*; fn p() { let _g: GA<u8, U8> = (0u8, 0u8, 0u8, 0u8, 0u8, 0u8, 0u8, 0u8, ).into(); } }
+mod q561 { use super::*; fn p() { let _g: GA<u8, U13> = (0u8, 0u8, 0u8, 0u8, 0u8, 0u8, 0u8, 0u8, ).into(); } }
+mod q562 { use super::*; fn p() { let _g: GA<u8, U9> = (0u8, 0u8, 0u8, 0u8, 0u8, 0u8, 0u8, 0u8, 0u8, ).into(); } }
+mod q563 { use super::*; fn p() { let _g: GA<u8, U13> = (0u8, 0u8, 0u8, 0u8, 0u8, 0u8, 0u8, 0u8, 0u8, ).into(); } }
+mod q564 { use super::*; fn p() { let _g: GA<u8, U10> = (0u8, 0u8, 0u8, 0u8, 0u8, 0u8, 0u8, 0u8, 0u8, 0u8, ).into(); } }
+mod q565 { use super::*; fn p() { let _g: GA<u8, U13> = (0u8, 0u8, 0u8, 0u8, 0u8, 0u8, 0u8, 0u8, 0u8, 0u8, ).into(); } }
+mod q566 { use super::*; fn p() { let _g: GA<u8, U11> = (0u8, 0u8, 0u8, 0u8, 0u8, 0u8, 0u8, 0u8, 0u8, 0u8, 0u8, ).into(); } }
+mod q567 { use super::*; fn p() { let _g: GA<u8, U0> = (0u8, 0u8, 0u8, 0u8, 0u8, 0u8, 0u8, 0u8, 0u8, 0u8, 0u8, 0u8, ).into(); } }
+mod q568 { use super::*; fn p() { let _g: GA<u8, U13> = (0u8, 0u8, 0u8, 0u8, 0u8, 0u8, 0u8, 0u8, 0u8, 0u8, 0u8, 0u8, ).into(); } }
+mod q569 { use super::*; fn p() { let _g: GA<u8, U13> = (0u8, 0u8, 0u8, 0u8, 0u8, 0u8, 0u8, 0u8, 0u8, 0u8, 0u8, 0u8, 0u8, ).into(); } }
+mod q570 { use super::*; fn p(a: GA<u16, U3>) -> String { format!("{:x}", a) } }
+mod q571 { use super::*; fn p(a: GA<u8, U16>) { let _x: [u8; 15] = a.into_array(); } }
+mod q572 { use super::*; fn p(a: GA<u8, U16>) { let (_c, _x): (GA<u8, U16>, u8) = a.pop_back(); } }
+mod q573 { use super::*; fn p(a: GA<u8, U16>) { let _c: GA<u8, U17> = a.append(1u8); } }
+mod q574 { use super::*; fn p(a: GA<u8, U33>, b: GA<u8, U32>) -> bool { a == b } }
+mod q575 { use super::*; fn p(a: GA<u8, U33>, b: GA<u8, U33>) { let _ = a.zip(b, |x, y| x.wrapping_add(y)); } }
+mod q576 { use super::*; fn p(a: GA<u8, U33>) { let (_h, _t): (GA<u8, U33>, GA<u8, U0>) = Split::<u8, U33>::split(a); } }
+mod q577 { use super::*; fn p(x: &[[u8; 34]]) { let _g: &[GA<u8, U33>] = GA::from_chunks(x); } }
+mod q578 { use super::*; fn p(a: GA<u8, U1023>) { let _x: [u8; 1022] = a.into_array(); } }
+mod q579 { use super::*; fn p(a: GA<u8, U1023>) { let (_c, _x): (GA<u8, U1023>, u8) = a.pop_back(); } }
+mod q580 { use super::*; fn p(a: GA<u8, U1023>) { let _c: GA<u8, U1024> = a.append(1u8); } }
+mod q581 { use super::*; fn p(a: GA<u8, U5>) {} }
+mod q582 { use super::*; fn p(a: GA<u8, B1>) {} }
+mod q583 { use super::*; fn p() { fn need<X: Send>() {} need::<GA<u8, U0>>(); } }
+mod q584 { use super::*; fn p() { fn need<X: Clone>() {} need::<GenericArrayIter<u8, U0>>(); } }
+mod q585 { use super::*; fn p() { fn need<X: Send>() {} need::<Box<GA<u8, U0>>>(); } }
+mod q586 { use super::*; fn p() { fn need<X: Clone>() {} need::<GA<u8, U1>>(); } }
+mod q587 { use super::*; fn p() { fn need<X: Send>() {} need::<&'static GA<u8, U1>>(); } }
+mod q588 { use super::*; fn p() { fn need<X: Clone>() {} need::<Box<GA<u8, U1>>>(); } }
+mod q589 { use super::*; fn p() { fn need<X: Send>() {} need::<GenericArrayIter<u8, U2>>(); } }
+mod q590 { use super::*; fn p() { fn need<X: Clone>() {} need::<&'static GA<u8, U2>>(); } }
+mod q591 { use super::*; fn p() { fn need<X: Send>() {} need::<GA<u8, U3>>(); } }
+mod q592 { use super::*; fn p() { fn need<X: Clone>() {} need::<GenericArrayIter<u8, U3>>(); } }
+mod q593 { use super::*; fn p() { fn need<X: Send>() {} need::<Box<GA<u8, U3>>>(); } }
+mod q594 { use super::*; fn p() { fn need<X: Clone>() {} need::<GA<u8, U6>>(); } }
+mod q595 { use super::*; fn p() { fn need<X: Send>() {} need::<&'static GA<u8, U6>>(); } }
+mod q596 { use super::*; fn p() { fn need<X: Clone>() {} need::<Box<GA<u8, U6>>>(); } }
+mod q597 { use super::*; fn p() { fn need<X: Send>() {} need::<GenericArrayIter<String, U0>>(); } }
+mod q598 { use super::*; fn p() { fn need<X: Clone>() {} need::<&'static GA<String, U0>>(); } }
+mod q599 { use super::*; fn p() { fn need<X: Send>() {} need::<GA<String, U1>>(); } }
+mod q600 { use super::*; fn p() { fn need<X: Clone>() {} need::<GenericArrayIter<String, U1>>(); } }
+mod q601 { use super::*; fn p() { fn need<X: Send>() {} need::<Box<GA<String, U1>>>(); } }
+mod q602 { use super::*; fn p() { fn need<X: Clone>() {} need::<GA<String, U2>>(); } }
+mod q603 { use super::*; fn p() { fn need<X: Send>() {} need::<&'static GA<String, U2>>(); } }
+mod q604 { use super::*; fn p() { fn need<X: Clone>() {} need::<Box<GA<String, U2>>>(); } }
+mod q605 { use super::*; fn p() { fn need<X: Send>() {} need::<GenericArrayIter<String, U3>>(); } }
+mod q606 { use super::*; fn p() { fn need<X: Clone>() {} need::<&'static GA<String, U3>>(); } }
+mod q607 { use super::*; fn p() { fn need<X: Send>() {} need::<GA<String, U6>>(); } }
+mod q608 { use super::*; fn p() { fn need<X: Clone>() {} need::<GenericArrayIter<String, U6>>(); } }
+mod q609 { use super::*; fn p() { fn need<X: Send>() {} need::<Box<GA<String, U6>>>(); } }
+mod q610 { use super::*; fn p() { fn need<X: Clone>() {} need::<GA<std::rc::Rc<u8>, U0>>(); } }
+mod q611 { use super::*; fn p() { fn need<X: Send>() {} need::<&'static GA<std::rc::Rc<u8>, U0>>(); } }
+mod q612 { use super::*; fn p() { fn need<X: Clone>() {} need::<Box<GA<std::rc::Rc<u8>, U0>>>(); } }
+mod q613 { use super::*; fn p() { fn need<X: Send>() {} need::<GenericArrayIter<std::rc::Rc<u8>, U1>>(); } }
+mod q614 { use super::*; fn p() { fn need<X: Clone>() {} need::<&'static GA<std::rc::Rc<u8>, U1>>(); } }
+mod q615 { use super::*; fn p() { fn need<X: Send>() {} need::<GA<std::rc::Rc<u8>, U2>>(); } }
+mod q616 { use super::*; fn p() { fn need<X: Clone>() {} need::<GenericArrayIter<std::rc::Rc<u8>, U2>>(); } }
+mod q617 { use super::*; fn p() { fn need<X: Send>() {} need::<Box<GA<std::rc::Rc<u8>, U2>>>(); } }
+mod q618 { use super::*; fn p() { fn need<X: Clone>() {} need::<GA<std::rc::Rc<u8>, U3>>(); } }
+mod q619 { use super::*; fn p() { fn need<X: Send>() {} need::<&'static GA<std::rc::Rc<u8>, U3>>(); } }
+mod q620 { use super::*; fn p() { fn need<X: Clone>() {} need::<Box<GA<std::rc::Rc<u8>, U3>>>(); } }
+mod q621 { use super::*; fn p() { fn need<X: Send>() {} need::<GenericArrayIter<std::rc::Rc<u8>, U6>>(); } }
+mod q622 { use super::*; fn p() { fn need<X: Clone>() {} need::<&'static GA<std::rc::Rc<u8>, U6>>(); } }
+mod q623 { use super::*; fn p() { fn need<X: Send>() {} need::<GA<core::cell::Cell<u8>, U0>>(); } }
+mod q624 { use super::*; fn p() { fn need<X: Clone>() {} need::<GenericArrayIter<core::cell::Cell<u8>, U0>>(); } }
+mod q625 { use super::*; fn p() { fn need<X: Send>() {} need::<Box<GA<core::cell::Cell<u8>, U0>>>(); } }
+mod q626 { use super::*; fn p() { fn need<X: Clone>() {} need::<GA<core::cell::Cell<u8>, U1>>(); } }
+mod q627 { use super::*; fn p() { fn need<X: Send>() {} need::<&'static GA<core::cell::Cell<u8>, U1>>(); } }
+mod q628 { use super::*; fn p() { fn need<X: Clone>() {} need::<Box<GA<core::cell::Cell<u8>, U1>>>(); } }
+mod q629 { use super::*; fn p() { fn need<X: Send>() {} need::<GenericArrayIter<core::cell::Cell<u8>, U2>>(); } }
+mod q630 { use super::*; fn p() { fn need<X: Clone>() {} need::<&'static GA<core::cell::Cell<u8>, U2>>(); } }
+mod q631 { use super::*; fn p() { fn need<X: Send>() {} need::<GA<core::cell::Cell<u8>, U3>>(); } }
+mod q632 { use super::*; fn p() { fn need<X: Clone>() {} need::<GenericArrayIter<core::cell::Cell<u8>, U3>>(); } }
+mod q633 { use super::*; fn p() { fn need<X: Send>() {} need::<Box<GA<core::cell::Cell<u8>, U3>>>(); } }
+mod q634 { use super::*; fn p() { fn need<X: Clone>() {} need::<GA<core::cell::Cell<u8>, U6>>(); } }
+mod q635 { use super::*; fn p() { fn need<X: Send>() {} need::<&'static GA<core::cell::Cell<u8>, U6>>(); } }
+mod q636 { use super::*; fn p() { fn need<X: Clone>() {} need::<Box<GA<core::cell::Cell<u8>, U6>>>(); } }
+mod q637 { use super::*; fn p() { fn need<X: Send>() {} need::<GenericArrayIter<*const u8, U0>>(); } }
+mod q638 { use super::*; fn p() { fn need<X: Clone>() {} need::<&'static GA<*const u8, U0>>(); } }
+mod q639 { use super::*; fn p() { fn need<X: Send>() {} need::<GA<*const u8, U1>>(); } }
+mod q640 { use super::*; fn p() { fn need<X: Clone>() {} need::<GenericArrayIter<*const u8, U1>>(); } }
+mod q641 { use super::*; fn p() { fn need<X: Send>() {} need::<Box<GA<*const u8, U1>>>(); } }
+mod q642 { use super::*; fn p() { fn need<X: Clone>() {} need::<GA<*const u8, U2>>(); } }
+mod q643 { use super::*; fn p() { fn need<X: Send>() {} need::<&'static GA<*const u8, U2>>(); } }
+mod q644 { use super::*; fn p() { fn need<X: Clone>() {} need::<Box<GA<*const u8, U2>>>(); } }
+mod q645 { use super::*; fn p() { fn need<X: Send>() {} need::<GenericArrayIter<*const u8, U3>>(); } }
+mod q646 { use super::*; fn p() { fn need<X: Clone>() {} need::<&'static GA<*const u8, U3>>(); } }
+mod q647 { use super::*; fn p() { fn need<X: Send>() {} need::<GA<*const u8, U6>>(); } }
+mod q648 { use super::*; fn p() { fn need<X: Clone>() {} need::<GenericArrayIter<*const u8, U6>>(); } }
+mod q649 { use super::*; fn p() { fn need<X: Send>() {} need::<Box<GA<*const u8, U6>>>(); } }
+mod q650 { use super::*; fn p() { fn need<X: Clone>() {} need::<GA<std::sync::MutexGuard<'static, u8>, U0>>(); } }
+mod q651 { use super::*; fn p() { fn need<X: Send>() {} need::<&'static GA<std::sync::MutexGuard<'static, u8>, U0>>(); } }
+mod q652 { use super::*; fn p() { fn need<X: Clone>() {} need::<Box<GA<std::sync::MutexGuard<'static, u8>, U0>>>(); } }
+mod q653 { use super::*; fn p() { fn need<X: Send>() {} need::<GenericArrayIter<std::sync::MutexGuard<'static, u8>, U1>>(); } }
+mod q654 { use super::*; fn p() { fn need<X: Clone>() {} need::<&'static GA<std::sync::MutexGuard<'static, u8>, U1>>(); } }
+mod q655 { use super::*; fn p() { fn need<X: Send>() {} need::<GA<std::sync::MutexGuard<'static, u8>, U2>>(); } }
+mod q656 { use super::*; fn p() { fn need<X: Clone>() {} need::<GenericArrayIter<std::sync::MutexGuard<'static, u8>, U2>>(); } }
+mod q657 { use super::*; fn p() { fn need<X: Send>() {} need::<Box<GA<std::sync::MutexGuard<'static, u8>, U2>>>(); } }
+mod q658 { use super::*; fn p() { fn need<X: Clone>() {} need::<GA<std::sync::MutexGuard<'static, u8>, U3>>(); } }
+mod q659 { use super::*; fn p() { fn need<X: Send>() {} need::<&'static GA<std::sync::MutexGuard<'static, u8>, U3>>(); } }
+mod q660 { use super::*; fn p() { fn need<X: Clone>() {} need::<Box<GA<std::sync::MutexGuard<'static, u8>, U3>>>(); } }
+mod q661 { use super::*; fn p() { fn need<X: Send>() {} need::<GenericArrayIter<std::sync::MutexGuard<'static, u8>, U6>>(); } }
+mod q662 { use super::*; fn p() { fn need<X: Clone>() {} need::<&'static GA<std::sync::MutexGuard<'static, u8>, U6>>(); } }
